@@ -2,5 +2,2355 @@
 From LanceV Require Import Common.Base Core.Model_RowIds.
 Local Open Scope N_scope.
 
+(* ------------------------------------------------------------------ *)
+(* generic list facts                                                  *)
+(* ------------------------------------------------------------------ *)
+Lemma memN_In : forall v l, memN v l = true <-> In v l.
+Proof.
+  intros v l. unfold memN. rewrite existsb_exists. split.
+  - intros [x [Hin Heq]]. apply N.eqb_eq in Heq. subst. exact Hin.
+  - intro Hin. exists v. split; [exact Hin | apply N.eqb_refl].
+Qed.
+
+Lemma memN_false : forall v l, memN v l = false <-> ~ In v l.
+Proof.
+  intros v l. rewrite <- memN_In. destruct (memN v l); split; intro H;
+    [discriminate | exfalso; apply H; reflexivity | intro; discriminate | reflexivity].
+Qed.
+
+Lemma len_N_app {A} : forall (l1 l2 : list A), len_N (l1 ++ l2) = len_N l1 + len_N l2.
+Proof. intros. unfold len_N. rewrite app_length. lia. Qed.
+
+Lemma len_N_cons {A} : forall (x : A) l, len_N (x :: l) = 1 + len_N l.
+Proof. intros. unfold len_N. cbn [length]. lia. Qed.
+
+Lemma len_N_nil {A} : len_N (@nil A) = 0.
+Proof. reflexivity. Qed.
+
+Lemma nth_N_0 {A} : forall (x : A) l, nth_N (x :: l) 0 = Some x.
+Proof. reflexivity. Qed.
+
+Lemma nth_N_succ {A} : forall (x : A) l i, nth_N (x :: l) (i + 1) = nth_N l i.
+Proof. intros. unfold nth_N. replace (N.to_nat (i + 1)) with (S (N.to_nat i)) by lia. reflexivity. Qed.
+
+Lemma nth_N_pos {A} : forall (x : A) l i, 0 < i -> nth_N (x :: l) i = nth_N l (i - 1).
+Proof. intros. replace i with (i - 1 + 1) at 1 by lia. apply nth_N_succ. Qed.
+
+Lemma nth_N_none {A} : forall (l : list A) i, len_N l <= i -> nth_N l i = None.
+Proof. intros l i H. unfold nth_N, len_N in *. apply nth_error_None. lia. Qed.
+
+Lemma nth_N_some {A} : forall (l : list A) i, i < len_N l -> exists x, nth_N l i = Some x.
+Proof.
+  intros l i H. unfold nth_N, len_N in *. destruct (nth_error l (N.to_nat i)) eqn:E; [eauto|].
+  apply nth_error_None in E. lia.
+Qed.
+
+(* ------------------------------------------------------------------ *)
+(* nrange / range_iter                                                 *)
+(* ------------------------------------------------------------------ *)
 Lemma nrange_length : forall n s, length (nrange s n) = n.
 Proof. induction n as [|n IH]; intro s; cbn [nrange length]; [reflexivity | rewrite IH; reflexivity]. Qed.
+
+Lemma nrange_In : forall n s v, In v (nrange s n) <-> s <= v < s + N.of_nat n.
+Proof.
+  induction n as [|n IH]; intros s v; cbn [nrange In].
+  - split; [intros [] | lia].
+  - rewrite IH. lia.
+Qed.
+
+Lemma nrange_app : forall n m s, nrange s (n + m) = nrange s n ++ nrange (s + N.of_nat n) m.
+Proof.
+  induction n as [|n IH]; intros m s; cbn [nrange Nat.add app].
+  - f_equal. lia.
+  - rewrite IH. do 3 f_equal. lia.
+Qed.
+
+Lemma nrange_nth : forall n s i, (i < n)%nat -> nth_error (nrange s n) i = Some (s + N.of_nat i).
+Proof.
+  induction n as [|n IH]; intros s i Hi; [lia|].
+  destruct i as [|i]; cbn [nrange nth_error].
+  - f_equal. lia.
+  - rewrite IH by lia. f_equal. lia.
+Qed.
+
+Lemma range_iter_In : forall s e v, In v (range_iter s e) <-> s <= v < e.
+Proof. intros. unfold range_iter. rewrite nrange_In. lia. Qed.
+
+Lemma range_iter_len : forall s e, len_N (range_iter s e) = e - s.
+Proof. intros. unfold range_iter, len_N. rewrite nrange_length. lia. Qed.
+
+Lemma range_iter_empty : forall s e, e <= s -> range_iter s e = [].
+Proof. intros. unfold range_iter. replace (N.to_nat (e - s)) with O by lia. reflexivity. Qed.
+
+Lemma range_iter_cons : forall s e, s < e -> range_iter s e = s :: range_iter (s + 1) e.
+Proof.
+  intros. unfold range_iter. replace (N.to_nat (e - s)) with (S (N.to_nat (e - (s + 1)))) by lia. reflexivity.
+Qed.
+
+Lemma range_iter_split : forall s m e, s <= m <= e -> range_iter s e = range_iter s m ++ range_iter m e.
+Proof.
+  intros. unfold range_iter. replace (N.to_nat (e - s)) with (N.to_nat (m - s) + N.to_nat (e - m))%nat by lia.
+  rewrite nrange_app. do 2 f_equal. lia.
+Qed.
+
+Lemma range_iter_snoc : forall s e, s <= e -> range_iter s (e + 1) = range_iter s e ++ [e].
+Proof.
+  intros. rewrite (range_iter_split s e (e + 1)) by lia. f_equal.
+  rewrite range_iter_cons by lia. rewrite range_iter_empty by lia. reflexivity.
+Qed.
+
+Lemma range_iter_nth : forall s e i, i < e - s -> nth_N (range_iter s e) i = Some (s + i).
+Proof.
+  intros. unfold nth_N, range_iter. rewrite nrange_nth by lia. f_equal. lia.
+Qed.
+
+(* ------------------------------------------------------------------ *)
+(* strictly increasing lists                                           *)
+(* ------------------------------------------------------------------ *)
+Inductive sincr : list N -> Prop :=
+| sincr_nil : sincr []
+| sincr_one : forall x, sincr [x]
+| sincr_cons : forall x y l, x < y -> sincr (y :: l) -> sincr (x :: y :: l).
+
+Lemma strict_sorted_sincr : forall l, strict_sorted l = true <-> sincr l.
+Proof.
+  induction l as [|x l IH]; [split; [constructor | reflexivity]|].
+  destruct l as [|y l]; [split; [constructor | reflexivity]|].
+  change (strict_sorted (x :: y :: l)) with ((x <? y) && strict_sorted (y :: l)).
+  rewrite andb_true_iff, IH, N.ltb_lt. split.
+  - intros [H1 H2]. constructor; assumption.
+  - intro H. inversion H; subst. split; assumption.
+Qed.
+
+Lemma sincr_tail : forall x l, sincr (x :: l) -> sincr l.
+Proof. intros x l H. inversion H; subst; [constructor | assumption]. Qed.
+
+Lemma sincr_head_lt : forall x l, sincr (x :: l) -> forall y, In y l -> x < y.
+Proof.
+  intros x l. revert x. induction l as [|z l IH]; intros x H y Hy; [destruct Hy|].
+  inversion H; subst. destruct Hy as [<- | Hy]; [assumption|].
+  specialize (IH z H4 y Hy). lia.
+Qed.
+
+Lemma sincr_cons_iff : forall x l, sincr (x :: l) <-> (sincr l /\ forall y, In y l -> x < y).
+Proof.
+  intros x l. split.
+  - intro H. split; [eapply sincr_tail; eauto | apply sincr_head_lt; assumption].
+  - intros [H1 H2]. destruct l as [|y l]; constructor; [apply H2; left; reflexivity | assumption].
+Qed.
+
+Lemma sincr_NoDup : forall l, sincr l -> NoDup l.
+Proof.
+  induction l as [|x l IH]; intro H; [constructor|].
+  apply sincr_cons_iff in H as [H1 H2]. constructor; [|apply IH; assumption].
+  intro Hin. specialize (H2 x Hin). lia.
+Qed.
+
+Lemma sincr_app : forall l1 l2, sincr l1 -> sincr l2 -> (forall a b, In a l1 -> In b l2 -> a < b) -> sincr (l1 ++ l2).
+Proof.
+  induction l1 as [|x l1 IH]; intros l2 H1 H2 H; [assumption|].
+  cbn [app]. apply sincr_cons_iff. apply sincr_cons_iff in H1 as [H1a H1b]. split.
+  - apply IH; [assumption | assumption |]. intros a b Ha Hb. apply H; [right; assumption | assumption].
+  - intros y Hy. apply in_app_or in Hy as [Hy | Hy]; [apply H1b; assumption | apply H; [left; reflexivity | assumption]].
+Qed.
+
+Lemma sincr_app_inv : forall l1 l2, sincr (l1 ++ l2) ->
+  sincr l1 /\ sincr l2 /\ (forall a b, In a l1 -> In b l2 -> a < b).
+Proof.
+  induction l1 as [|x l1 IH]; intros l2 H.
+  - split; [constructor|]. split; [assumption|]. intros a b [].
+  - cbn [app] in H. apply sincr_cons_iff in H as [H1 H2]. destruct (IH l2 H1) as [Ha [Hb Hc]].
+    split; [|split; [assumption|]].
+    + apply sincr_cons_iff. split; [assumption|]. intros y Hy. apply H2. apply in_or_app. left; assumption.
+    + intros a b [<- | Ha'] Hb'; [apply H2; apply in_or_app; right; assumption | apply Hc; assumption].
+Qed.
+
+Lemma sincr_nrange : forall n s, sincr (nrange s n).
+Proof.
+  induction n as [|n IH]; intro s; [constructor|].
+  cbn [nrange]. apply sincr_cons_iff. split; [apply IH|]. intros y Hy. apply nrange_In in Hy. lia.
+Qed.
+
+Lemma sincr_range_iter : forall s e, sincr (range_iter s e).
+Proof. intros. apply sincr_nrange. Qed.
+
+Lemma sincr_filter : forall p l, sincr l -> sincr (filter p l).
+Proof.
+  intros p. induction l as [|x l IH]; intro H; [constructor|].
+  apply sincr_cons_iff in H as [H1 H2]. cbn [filter]. destruct (p x); [|apply IH; assumption].
+  apply sincr_cons_iff. split; [apply IH; assumption|]. intros y Hy. apply filter_In in Hy as [Hy _]. apply H2; assumption.
+Qed.
+
+Lemma sincr_firstn : forall n l, sincr l -> sincr (firstn n l).
+Proof.
+  intros n l H. rewrite <- (firstn_skipn n l) in H. apply sincr_app_inv in H. tauto.
+Qed.
+
+Lemma sincr_skipn : forall n l, sincr l -> sincr (skipn n l).
+Proof.
+  intros n l H. rewrite <- (firstn_skipn n l) in H. apply sincr_app_inv in H. tauto.
+Qed.
+
+(* two strictly increasing lists with the same elements are equal *)
+Lemma sincr_ext : forall l1 l2, sincr l1 -> sincr l2 -> (forall v, In v l1 <-> In v l2) -> l1 = l2.
+Proof.
+  induction l1 as [|x l1 IH]; intros l2 H1 H2 H.
+  - destruct l2 as [|y l2]; [reflexivity|]. exfalso. apply (H y). left; reflexivity.
+  - destruct l2 as [|y l2]; [exfalso; apply (H x); left; reflexivity|].
+    apply sincr_cons_iff in H1 as [H1a H1b]. apply sincr_cons_iff in H2 as [H2a H2b].
+    assert (x = y).
+    { assert (Hx : In x (y :: l2)) by (apply H; left; reflexivity).
+      assert (Hy : In y (x :: l1)) by (apply H; left; reflexivity).
+      destruct Hx as [Hx | Hx]; [symmetry; assumption|]. destruct Hy as [Hy | Hy]; [assumption|].
+      specialize (H1b y Hy). specialize (H2b x Hx). lia. }
+    subst y. f_equal. apply IH; [assumption | assumption |].
+    intro v. split; intro Hv.
+    + assert (Hv' : In v (x :: l2)) by (apply H; right; assumption).
+      destruct Hv' as [<- | Hv']; [specialize (H1b x Hv); lia | assumption].
+    + assert (Hv' : In v (x :: l1)) by (apply H; right; assumption).
+      destruct Hv' as [<- | Hv']; [specialize (H2b x Hv); lia | assumption].
+Qed.
+
+(* a strictly increasing list inside a range is the range filtered by membership *)
+Lemma sincr_filter_range : forall l s e, sincr l -> (forall v, In v l -> s <= v < e) ->
+  filter (fun v => memN v l) (range_iter s e) = l.
+Proof.
+  intros l s e Hl Hin. apply sincr_ext; [apply sincr_filter, sincr_range_iter | assumption |].
+  intro v. rewrite filter_In, range_iter_In, memN_In. split; [tauto|]. intro Hv. split; [apply Hin; assumption | assumption].
+Qed.
+
+(* ------------------------------------------------------------------ *)
+(* find_index / index_of                                               *)
+(* ------------------------------------------------------------------ *)
+Lemma index_of_cons : forall v x l, index_of v (x :: l) =
+  if v =? x then Some 0 else match index_of v l with Some i => Some (i + 1) | None => None end.
+Proof. reflexivity. Qed.
+
+Lemma index_of_none : forall v l, index_of v l = None <-> ~ In v l.
+Proof.
+  intros v l. induction l as [|x l IH]; [split; [intros _ [] | reflexivity]|].
+  rewrite index_of_cons. destruct (N.eqb_spec v x) as [->|Hne].
+  - split; [discriminate | intro H; exfalso; apply H; left; reflexivity].
+  - destruct (index_of v l) eqn:E.
+    + split; [discriminate|]. intro H. exfalso. destruct IH as [_ IH2].
+      assert (Hn : ~ In v l) by (intro; apply H; right; assumption). specialize (IH2 Hn). discriminate.
+    + split; [|reflexivity]. intros _ [Hx | Hx]; [congruence | apply IH in Hx; [assumption | reflexivity]].
+Qed.
+
+Lemma index_of_some_nth : forall v l i, index_of v l = Some i -> nth_N l i = Some v.
+Proof.
+  intros v l. induction l as [|x l IH]; intros i H; [discriminate|].
+  rewrite index_of_cons in H. destruct (N.eqb_spec v x) as [->|Hne].
+  - inversion H; subst. reflexivity.
+  - destruct (index_of v l) as [j|] eqn:E; [|discriminate]. inversion H; subst. rewrite nth_N_succ. apply IH. reflexivity.
+Qed.
+
+Lemma index_of_is_some : forall v l, is_some (index_of v l) = memN v l.
+Proof.
+  intros v l. destruct (index_of v l) eqn:E; cbn [is_some]; symmetry.
+  - apply memN_In. apply index_of_some_nth in E. unfold nth_N in E. eapply nth_error_In; eauto.
+  - apply memN_false. apply index_of_none. assumption.
+Qed.
+
+Lemma index_of_map_add : forall b v o, index_of (b + v) (map (N.add b) o) = index_of v o.
+Proof.
+  intros b v o. induction o as [|x o IH]; [reflexivity|].
+  cbn [map]. rewrite !index_of_cons, IH.
+  destruct (N.eqb_spec (b + v) (b + x)), (N.eqb_spec v x); try reflexivity; lia.
+Qed.
+
+Lemma index_of_app_l : forall v l1 l2, In v l1 -> index_of v (l1 ++ l2) = index_of v l1.
+Proof.
+  intros v l1 l2. induction l1 as [|x l1 IH]; intro H; [destruct H|].
+  cbn [app]. rewrite !index_of_cons. destruct (N.eqb_spec v x); [reflexivity|].
+  destruct H as [H | H]; [congruence|]. rewrite IH by assumption. reflexivity.
+Qed.
+
+Lemma index_of_app_r : forall v l1 l2, ~ In v l1 ->
+  index_of v (l1 ++ l2) = match index_of v l2 with Some i => Some (len_N l1 + i) | None => None end.
+Proof.
+  intros v l1 l2. induction l1 as [|x l1 IH]; intro H.
+  - cbn [app]. destruct (index_of v l2); [f_equal; rewrite len_N_nil; lia | reflexivity].
+  - cbn [app]. rewrite index_of_cons. destruct (N.eqb_spec v x); [exfalso; apply H; left; congruence|].
+    rewrite IH by (intro; apply H; right; assumption).
+    destruct (index_of v l2); [f_equal; rewrite len_N_cons; lia | reflexivity].
+Qed.
+
+
+Lemma index_of_range : forall s e v, s <= v < e -> index_of v (range_iter s e) = Some (v - s).
+Proof.
+  intros s e v H. rewrite (range_iter_split s v e) by lia.
+  rewrite index_of_app_r by (rewrite range_iter_In; lia).
+  rewrite (range_iter_cons v e) by lia. rewrite index_of_cons, N.eqb_refl. rewrite range_iter_len. f_equal. lia.
+Qed.
+
+Lemma index_of_filter_range : forall p s e v, p v = true -> s <= v < e ->
+  index_of v (filter p (range_iter s e)) = Some (len_N (filter p (range_iter s v))).
+Proof.
+  intros p s e v Hp H. rewrite (range_iter_split s v e) by lia. rewrite filter_app.
+  rewrite index_of_app_r by (rewrite filter_In, range_iter_In; lia).
+  rewrite (range_iter_cons v e) by lia. cbn [filter]. rewrite Hp. rewrite index_of_cons, N.eqb_refl. f_equal. lia.
+Qed.
+
+Lemma index_of_filter_none : forall p l v, p v = false -> index_of v (filter p l) = None.
+Proof. intros. apply index_of_none. rewrite filter_In. intros [_ H1]. congruence. Qed.
+
+Lemma filter_len_le {A} : forall (p : A -> bool) l, len_N (filter p l) <= len_N l.
+Proof.
+  intros p l. induction l as [|x l IH]; [reflexivity|]. cbn [filter]. destruct (p x); rewrite ?len_N_cons; lia.
+Qed.
+
+Lemma filter_len_split {A} : forall (p : A -> bool) l, len_N (filter p l) + len_N (filter (fun x => negb (p x)) l) = len_N l.
+Proof.
+  intros p l. induction l as [|x l IH]; [reflexivity|]. cbn [filter]. destruct (p x); cbn [negb]; rewrite ?len_N_cons; lia.
+Qed.
+
+Lemma filter_ext_in {A} : forall (p q : A -> bool) l, (forall x, In x l -> p x = q x) -> filter p l = filter q l.
+Proof.
+  intros p q l. induction l as [|x l IH]; intro H; [reflexivity|].
+  cbn [filter]. rewrite (H x) by (left; reflexivity). rewrite IH by (intros; apply H; right; assumption). reflexivity.
+Qed.
+
+Lemma filter_map_len {A B} : forall (f : B -> bool) (g : A -> B) l,
+  len_N (filter (fun x => f (g x)) l) = len_N (filter f (map g l)).
+Proof.
+  intros f g l. induction l as [|x l IH]; [reflexivity|]. cbn [filter map]. destruct (f (g x)); rewrite ?len_N_cons; lia.
+Qed.
+
+(* take_while on a strictly increasing list is a filter *)
+Lemma take_while_lt_sincr : forall l v, sincr l -> take_while (fun h => h <? v) l = filter (fun h => h <? v) l.
+Proof.
+  induction l as [|x l IH]; intros v H; [reflexivity|].
+  apply sincr_cons_iff in H as [H1 H2]. cbn [take_while filter]. destruct (N.ltb_spec x v).
+  - f_equal. apply IH. assumption.
+  - symmetry. clear IH H1. induction l as [|y l IH]; [reflexivity|].
+    cbn [filter]. assert (x < y) by (apply H2; left; reflexivity).
+    destruct (N.ltb_spec y v); [lia|]. apply IH. intros z Hz. apply H2. right. assumption.
+Qed.
+
+Lemma drop_while_lt_sincr : forall l v, sincr l -> drop_while (fun h => h <? v) l = filter (fun h => negb (h <? v)) l.
+Proof.
+  induction l as [|x l IH]; intros v H; [reflexivity|].
+  pose proof H as H0. apply sincr_cons_iff in H as [H1 H2]. cbn [drop_while filter]. destruct (N.ltb_spec x v); cbn [negb].
+  - apply IH. assumption.
+  - f_equal. symmetry. clear IH H1 H0. induction l as [|y l IH]; [reflexivity|].
+    cbn [filter]. assert (x < y) by (apply H2; left; reflexivity).
+    destruct (N.ltb_spec y v); [lia|]. cbn [negb]. f_equal. apply IH. intros z Hz. apply H2. right. assumption.
+Qed.
+
+(* ------------------------------------------------------------------ *)
+(* EncodedU64Array                                                     *)
+(* ------------------------------------------------------------------ *)
+Lemma list_min_le : forall l m, list_min l = Some m -> forall x, In x l -> m <= x.
+Proof.
+  induction l as [|y l IH]; intros m H x Hx; [destruct Hx|].
+  cbn [list_min] in H. destruct (list_min l) as [m'|] eqn:E.
+  - inversion H; subst. destruct Hx as [<- | Hx]; [lia|]. specialize (IH m' eq_refl x Hx). lia.
+  - inversion H; subst. destruct l; [|cbn [list_min] in E; destruct (list_min l); discriminate].
+    destruct Hx as [<- | []]. lia.
+Qed.
+
+Lemma list_max_ge : forall l m, list_max l = Some m -> forall x, In x l -> x <= m.
+Proof.
+  induction l as [|y l IH]; intros m H x Hx; [destruct Hx|].
+  cbn [list_max] in H. destruct (list_max l) as [m'|] eqn:E.
+  - inversion H; subst. destruct Hx as [<- | Hx]; [lia|]. specialize (IH m' eq_refl x Hx). lia.
+  - inversion H; subst. destruct l; [|cbn [list_max] in E; destruct (list_max l); discriminate].
+    destruct Hx as [<- | []]. lia.
+Qed.
+
+Lemma list_min_in : forall l m, list_min l = Some m -> In m l.
+Proof.
+  induction l as [|y l IH]; intros m H; [discriminate|].
+  cbn [list_min] in H. destruct (list_min l) as [m'|] eqn:E; inversion H; subst; [|left; reflexivity].
+  destruct (N.min_spec y m') as [[_ ->] | [_ ->]]; [left; reflexivity | right; apply IH; reflexivity].
+Qed.
+
+Lemma list_max_in : forall l m, list_max l = Some m -> In m l.
+Proof.
+  induction l as [|y l IH]; intros m H; [discriminate|].
+  cbn [list_max] in H. destruct (list_max l) as [m'|] eqn:E; inversion H; subst; [|left; reflexivity].
+  destruct (N.max_spec y m') as [[_ ->] | [_ ->]]; [right; apply IH; reflexivity | left; reflexivity].
+Qed.
+
+Lemma list_min_some : forall l, l <> [] -> exists m, list_min l = Some m.
+Proof. intros [|x l] H; [congruence|]. cbn [list_min]. destruct (list_min l); eauto. Qed.
+Lemma list_max_some : forall l, l <> [] -> exists m, list_max l = Some m.
+Proof. intros [|x l] H; [congruence|]. cbn [list_max]. destruct (list_max l); eauto. Qed.
+
+Lemma map_add_sub : forall mn l, (forall x, In x l -> mn <= x) -> map (N.add mn) (map (fun v => v - mn) l) = l.
+Proof.
+  intros mn l H. rewrite map_map. rewrite <- (map_id l) at 2. apply map_ext_in. intros x Hx. specialize (H x Hx). lia.
+Qed.
+
+Lemma earr_of_list_iter : forall l, earr_iter (earr_of_list l) = l.
+Proof.
+  intros l. unfold earr_of_list. destruct l as [|x l]; [reflexivity|].
+  set (l' := x :: l). destruct (list_min_some l') as [mn Hmn]; [discriminate|]. rewrite Hmn. cbn [or0].
+  pose proof (list_min_le _ _ Hmn) as Hle.
+  destruct (_ <=? 65535); [|destruct (_ <=? 4294967295)]; cbn [earr_iter]; try apply map_add_sub; try assumption. reflexivity.
+Qed.
+
+Lemma earr_of_list_wf : forall l, Forall (fun x => x < two64) l -> earr_wf (earr_of_list l) = true.
+Proof.
+  intros l Hl. unfold earr_of_list. destruct l as [|x l]; [reflexivity|].
+  set (l' := x :: l) in *. destruct (list_min_some l') as [mn Hmn]; [discriminate|].
+  destruct (list_max_some l') as [mx Hmx]; [discriminate|]. rewrite Hmn, Hmx. cbn [or0].
+  pose proof (list_min_le _ _ Hmn) as Hle. pose proof (list_max_ge _ _ Hmx) as Hge.
+  rewrite Forall_forall in Hl.
+  destruct (N.leb_spec (mx - mn) 65535); [|destruct (N.leb_spec (mx - mn) 4294967295)]; cbn [earr_wf];
+    apply forallb_forall; intros y Hy.
+  - apply in_map_iff in Hy as [z [<- Hz]]. specialize (Hle z Hz). specialize (Hge z Hz). specialize (Hl z Hz).
+    apply andb_true_iff. split; [apply N.leb_le | apply N.ltb_lt]; lia.
+  - apply in_map_iff in Hy as [z [<- Hz]]. specialize (Hle z Hz). specialize (Hge z Hz). specialize (Hl z Hz).
+    apply andb_true_iff. split; [apply N.leb_le | apply N.ltb_lt]; lia.
+  - apply N.ltb_lt. apply Hl. assumption.
+Qed.
+
+Lemma earr_len_iter : forall a, earr_len a = len_N (earr_iter a).
+Proof. intros [b o | b o | v]; cbn [earr_len earr_iter]; unfold len_N; rewrite ?map_length; reflexivity. Qed.
+
+Lemma earr_get_iter : forall a i, earr_get a i = nth_N (earr_iter a) i.
+Proof.
+  intros [b o | b o | v] i; cbn [earr_get earr_iter]; unfold nth_N; rewrite ?nth_error_map;
+    try (destruct (nth_error o (N.to_nat i)); reflexivity). reflexivity.
+Qed.
+
+Lemma earr_bsearch_iter : forall a v, earr_wf a = true -> earr_bsearch a v = index_of v (earr_iter a).
+Proof.
+  intros [b o | b o | vs] v Hwf; cbn [earr_bsearch earr_iter earr_wf] in *; [| |reflexivity].
+  - destruct (N.ltb_spec v b).
+    + symmetry. apply index_of_none. rewrite in_map_iff. intros [x [Hx _]]. lia.
+    + destruct (N.ltb_spec 65535 (v - b)).
+      * symmetry. apply index_of_none. rewrite in_map_iff. intros [x [Hx Hin]].
+        rewrite forallb_forall in Hwf. specialize (Hwf x Hin). apply andb_true_iff in Hwf as [Hw _]. apply N.leb_le in Hw. lia.
+      * replace v with (b + (v - b)) at 2 by lia. rewrite index_of_map_add. reflexivity.
+  - destruct (N.ltb_spec v b).
+    + symmetry. apply index_of_none. rewrite in_map_iff. intros [x [Hx _]]. lia.
+    + destruct (N.ltb_spec 4294967295 (v - b)).
+      * symmetry. apply index_of_none. rewrite in_map_iff. intros [x [Hx Hin]].
+        rewrite forallb_forall in Hwf. specialize (Hwf x Hin). apply andb_true_iff in Hwf as [Hw _]. apply N.leb_le in Hw. lia.
+      * replace v with (b + (v - b)) at 2 by lia. rewrite index_of_map_add. reflexivity.
+Qed.
+
+Lemma earr_wf_lt : forall a x, earr_wf a = true -> In x (earr_iter a) -> x < two64.
+Proof.
+  intros [b o | b o | vs] x Hwf Hx; cbn [earr_wf earr_iter] in *; rewrite forallb_forall in Hwf.
+  - apply in_map_iff in Hx as [y [<- Hy]]. specialize (Hwf y Hy). apply andb_true_iff in Hwf as [_ Hw]. apply N.ltb_lt in Hw. assumption.
+  - apply in_map_iff in Hx as [y [<- Hy]]. specialize (Hwf y Hy). apply andb_true_iff in Hwf as [_ Hw]. apply N.ltb_lt in Hw. assumption.
+  - apply N.ltb_lt. apply Hwf. assumption.
+Qed.
+
+(* ------------------------------------------------------------------ *)
+(* accessors of a well-formed segment agree with its list view         *)
+(* ------------------------------------------------------------------ *)
+Lemma map_bm_get_range : forall bm s v, v - s <= len_N bm -> s <= v ->
+  map (fun x => bm_get bm (x - s)) (range_iter s v) = take_N (v - s) bm.
+Proof.
+  intros bm s v. remember (N.to_nat (v - s)) as n eqn:En. revert bm s v En.
+  induction n as [|n IH]; intros bm s v En Hlen Hsv.
+  - unfold take_N. rewrite <- En. rewrite range_iter_empty by lia. reflexivity.
+  - destruct bm as [|b bm]; [rewrite len_N_nil in Hlen; lia|].
+    rewrite range_iter_cons by lia. cbn [map]. unfold take_N. rewrite <- En. cbn [firstn].
+    f_equal; [unfold bm_get; replace (N.to_nat (s - s)) with O by lia; reflexivity|].
+    rewrite len_N_cons in Hlen.
+    specialize (IH bm (s + 1) v). unfold take_N in IH. replace (N.to_nat (v - (s + 1))) with n in IH by lia.
+    rewrite <- IH by lia. apply map_ext_in. intros x Hx. apply range_iter_In in Hx.
+    unfold bm_get. replace (N.to_nat (x - s)) with (S (N.to_nat (x - (s + 1)))) by lia. reflexivity.
+Qed.
+
+Definition holes_sorted_in (s e : N) (h : earr) : Prop :=
+  earr_wf h = true /\ sincr (earr_iter h) /\ forall x, In x (earr_iter h) -> s <= x < e.
+
+Lemma seg_wf_holes : forall s e h, seg_wf (SHoles s e h) = true ->
+  s < e /\ e < two64 /\ holes_sorted_in s e h.
+Proof.
+  intros s e h H. cbn [seg_wf] in H. repeat (apply andb_true_iff in H as [H ?]).
+  apply N.ltb_lt in H. apply N.ltb_lt in H3. split; [assumption|]. split; [assumption|].
+  split; [assumption|]. split; [apply strict_sorted_sincr; assumption|].
+  intros x Hx. rewrite forallb_forall in H0. specialize (H0 x Hx). unfold in_range in H0.
+  apply andb_true_iff in H0 as [Ha Hb]. apply N.leb_le in Ha. apply N.ltb_lt in Hb. lia.
+Qed.
+
+Lemma holes_iter : forall s e h, earr_wf h = true ->
+  seg_iter (SHoles s e h) = filter (fun v => negb (memN v (earr_iter h))) (range_iter s e).
+Proof.
+  intros. cbn [seg_iter]. apply filter_ext. intro v. rewrite earr_bsearch_iter by assumption. rewrite index_of_is_some. reflexivity.
+Qed.
+
+Lemma holes_count : forall s e hs v, sincr hs -> (forall x, In x hs -> s <= x < e) -> s <= v <= e ->
+  len_N (filter (fun x => memN x hs) (range_iter s v)) = len_N (filter (fun x => x <? v) hs).
+Proof.
+  intros s e hs v Hs Hin Hv. f_equal. apply sincr_ext.
+  - apply sincr_filter, sincr_range_iter.
+  - apply sincr_filter. assumption.
+  - intro x. rewrite !filter_In, range_iter_In, memN_In, N.ltb_lt. split; [tauto|].
+    intros [H1 H2]. specialize (Hin x H1). split; [lia | assumption].
+Qed.
+
+Lemma seg_len_iter : forall sg, seg_wf sg = true -> seg_len sg = len_N (seg_iter sg).
+Proof.
+  intros [s e | s e h | s e bm | a | a] Hwf; cbn [seg_len].
+  - cbn [seg_iter]. rewrite range_iter_len. reflexivity.
+  - apply seg_wf_holes in Hwf as [Hse [He [Hw [Hs Hin]]]]. rewrite holes_iter by assumption.
+    pose proof (filter_len_split (fun v => memN v (earr_iter h)) (range_iter s e)) as Hsplit.
+    rewrite range_iter_len in Hsplit.
+    rewrite (holes_count s e (earr_iter h) e Hs Hin) in Hsplit by lia.
+    replace (filter (fun x => x <? e) (earr_iter h)) with (earr_iter h) in Hsplit.
+    + lia.
+    + symmetry. rewrite <- (filter_ext_in (fun _ => true)); [clear; induction (earr_iter h) as [|x l IH]; [reflexivity | cbn [filter]; f_equal; assumption]|].
+      intros x Hx. specialize (Hin x Hx). symmetry. apply N.ltb_lt. lia.
+  - cbn [seg_wf] in Hwf. repeat (apply andb_true_iff in Hwf as [Hwf ?]). apply N.ltb_lt in Hwf. apply N.eqb_eq in H.
+    cbn [seg_iter]. rewrite filter_map_len with (f := fun b : bool => b).
+    rewrite map_bm_get_range by lia. unfold take_N. rewrite firstn_all2 by (unfold len_N in H; lia).
+    unfold count_true. pose proof (filter_len_le (fun b : bool => b) bm). lia.
+  - cbn [seg_iter]. apply earr_len_iter.
+  - cbn [seg_iter]. apply earr_len_iter.
+Qed.
+
+Lemma seg_get_iter : forall sg i, seg_wf sg = true -> seg_get sg i = nth_N (seg_iter sg) i.
+Proof.
+  intros sg i Hwf. pose proof (seg_len_iter sg Hwf) as Hlen.
+  destruct sg as [s e | s e h | s e bm | a | a]; cbn [seg_get].
+  - cbn [seg_wf] in Hwf. apply andb_true_iff in Hwf as [H1 H2]. apply N.leb_le in H1. apply N.ltb_lt in H2.
+    cbn [seg_iter]. destruct (N.ltb_spec (s + i) e).
+    + replace (s + i <? two64) with true by (symmetry; apply N.ltb_lt; lia). cbn [andb].
+      rewrite range_iter_nth by lia. reflexivity.
+    + rewrite andb_false_r. symmetry. apply nth_N_none. rewrite range_iter_len. lia.
+  - cbn [seg_len] in Hlen. destruct (N.leb_spec (e - s) i); [|reflexivity].
+    symmetry. apply nth_N_none. lia.
+  - cbn [seg_len] in Hlen. destruct (N.leb_spec (e - s) i); [|reflexivity].
+    symmetry. apply nth_N_none. lia.
+  - apply earr_get_iter.
+  - apply earr_get_iter.
+Qed.
+
+Lemma seg_contains_iter : forall sg v, seg_wf sg = true -> seg_contains sg v = memN v (seg_iter sg).
+Proof.
+  intros [s e | s e h | s e bm | a | a] v Hwf; cbn [seg_contains].
+  - cbn [seg_iter]. unfold in_range. destruct (memN v (range_iter s e)) eqn:E.
+    + apply memN_In, range_iter_In in E. apply andb_true_iff. split; [apply N.leb_le | apply N.ltb_lt]; lia.
+    + apply memN_false in E. rewrite range_iter_In in E. apply andb_false_iff.
+      destruct (N.leb_spec s v); [right; apply N.ltb_ge; lia | left; reflexivity].
+  - apply seg_wf_holes in Hwf as [Hse [He [Hw [Hs Hin]]]]. rewrite holes_iter by assumption.
+    unfold in_range. destruct (memN v (filter _ _)) eqn:E.
+    + apply memN_In, filter_In in E as [E1 E2]. apply range_iter_In in E1.
+      replace ((s <=? v) && (v <? e)) with true by (symmetry; apply andb_true_iff; split; [apply N.leb_le | apply N.ltb_lt]; lia).
+      cbn [negb]. assumption.
+    + apply memN_false in E. rewrite filter_In, range_iter_In in E.
+      destruct (N.leb_spec s v); destruct (N.ltb_spec v e); cbn [andb negb]; try reflexivity.
+      destruct (memN v (earr_iter h)); [reflexivity|]. exfalso. apply E. split; [lia | reflexivity].
+  - cbn [seg_iter]. unfold in_range. destruct (memN v (filter _ _)) eqn:E.
+    + apply memN_In, filter_In in E as [E1 E2]. apply range_iter_In in E1.
+      replace ((s <=? v) && (v <? e)) with true by (symmetry; apply andb_true_iff; split; [apply N.leb_le | apply N.ltb_lt]; lia).
+      cbn [negb]. assumption.
+    + apply memN_false in E. rewrite filter_In, range_iter_In in E.
+      destruct (N.leb_spec s v); destruct (N.ltb_spec v e); cbn [andb negb]; try reflexivity.
+      destruct (bm_get bm (v - s)); [|reflexivity]. exfalso. apply E. split; [lia | reflexivity].
+  - cbn [seg_wf] in Hwf. repeat (apply andb_true_iff in Hwf as [Hwf ?]). cbn [seg_iter].
+    rewrite earr_bsearch_iter by assumption. apply index_of_is_some.
+  - reflexivity.
+Qed.
+
+Lemma seg_position_iter : forall sg v, seg_wf sg = true -> seg_position sg v = index_of v (seg_iter sg).
+Proof.
+  intros [s e | s e h | s e bm | a | a] v Hwf; cbn [seg_position].
+  - cbn [seg_iter]. unfold in_range. destruct (N.leb_spec s v); destruct (N.ltb_spec v e); cbn [andb].
+    + rewrite index_of_range by lia. reflexivity.
+    + symmetry. apply index_of_none. rewrite range_iter_In. lia.
+    + symmetry. apply index_of_none. rewrite range_iter_In. lia.
+    + symmetry. apply index_of_none. rewrite range_iter_In. lia.
+  - apply seg_wf_holes in Hwf as [Hse [He [Hw [Hs Hin]]]]. rewrite holes_iter by assumption.
+    rewrite earr_bsearch_iter by assumption. rewrite index_of_is_some.
+    unfold in_range. destruct (N.leb_spec s v); destruct (N.ltb_spec v e); cbn [andb];
+      try (symmetry; apply index_of_none; rewrite filter_In, range_iter_In; lia).
+    destruct (memN v (earr_iter h)) eqn:E; cbn [negb].
+    + symmetry. apply index_of_filter_none. rewrite E. reflexivity.
+    + rewrite index_of_filter_range by (rewrite ?E; auto; lia). f_equal.
+      rewrite take_while_lt_sincr by assumption.
+      pose proof (filter_len_split (fun x => memN x (earr_iter h)) (range_iter s v)) as Hsp.
+      rewrite range_iter_len in Hsp. rewrite (holes_count s e) in Hsp by (auto; lia). lia.
+  - cbn [seg_wf] in Hwf. repeat (apply andb_true_iff in Hwf as [Hwf ?]). apply N.ltb_lt in Hwf. apply N.eqb_eq in H.
+    cbn [seg_iter]. unfold in_range. destruct (N.leb_spec s v); destruct (N.ltb_spec v e); cbn [andb];
+      try (symmetry; apply index_of_none; rewrite filter_In, range_iter_In; lia).
+    destruct (bm_get bm (v - s)) eqn:E.
+    + rewrite (index_of_filter_range (fun x => bm_get bm (x - s))) by (auto; lia). f_equal.
+      pose proof (filter_len_split (fun x => bm_get bm (x - s)) (range_iter s v)) as Hsp.
+      rewrite range_iter_len in Hsp.
+      rewrite (filter_map_len negb (fun x => bm_get bm (x - s))) in Hsp.
+      rewrite map_bm_get_range in Hsp by lia. unfold count_false. lia.
+    + symmetry. apply index_of_filter_none. assumption.
+  - cbn [seg_wf] in Hwf. repeat (apply andb_true_iff in Hwf as [Hwf ?]). cbn [seg_iter].
+    apply earr_bsearch_iter. assumption.
+  - reflexivity.
+Qed.
+
+(* ------------------------------------------------------------------ *)
+(* compute_stats                                                       *)
+(* ------------------------------------------------------------------ *)
+Definition nondecr (l : list N) : Prop := forall l1 x l2 y l3, l = l1 ++ x :: l2 ++ y :: l3 -> x <= y.
+
+Lemma nondecr_nil : nondecr [].
+Proof. intros l1 x l2 y l3 H. destruct l1; discriminate. Qed.
+
+Lemma nondecr_snoc : forall l v, nondecr (l ++ [v]) <-> (nondecr l /\ forall x, In x l -> x <= v).
+Proof.
+  intros l v. split.
+  - intro H. split.
+    + intros l1 x l2 y l3 E. apply (H l1 x l2 y (l3 ++ [v])). rewrite E. repeat (rewrite <- app_assoc; cbn [app]). reflexivity.
+    + intros x Hx. apply in_split in Hx as [l1 [l2 E]]. apply (H l1 x l2 v []). rewrite E. rewrite <- app_assoc. reflexivity.
+  - intros [H1 H2] l1 x l2 y l3 E.
+    destruct (list_eq_dec N.eq_dec l3 []) as [-> | Hne].
+    + assert (Ey : y = v /\ l = l1 ++ x :: l2).
+      { replace (l1 ++ x :: l2 ++ [y]) with ((l1 ++ x :: l2) ++ [y]) in E by (rewrite <- app_assoc; reflexivity).
+        apply app_inj_tail in E as [E1 E2]. split; [symmetry; assumption | assumption]. }
+      destruct Ey as [-> ->]. apply H2. apply in_or_app. right. left. reflexivity.
+    + destruct (exists_last Hne) as [l3' [z E3]]. subst l3.
+      replace (l1 ++ x :: l2 ++ y :: l3' ++ [z]) with ((l1 ++ x :: l2 ++ y :: l3') ++ [z]) in E
+        by (repeat (rewrite <- app_assoc; cbn [app]); reflexivity).
+      apply app_inj_tail in E as [E1 E2]. apply (H1 l1 x l2 y l3'). assumption.
+Qed.
+
+Lemma nondecr_cons : forall x l, nondecr (x :: l) -> nondecr l /\ forall y, In y l -> x <= y.
+Proof.
+  intros x l H. split.
+  - intros l1 a l2 b l3 E. apply (H (x :: l1) a l2 b l3). rewrite E. reflexivity.
+  - intros y Hy. apply in_split in Hy as [l1 [l2 E]]. apply (H [] x l1 y l2). rewrite E. reflexivity.
+Qed.
+
+Lemma nondecr_NoDup_sincr : forall l, nondecr l -> NoDup l -> sincr l.
+Proof.
+  induction l as [|x l IH]; intros H1 H2; [constructor|].
+  apply nondecr_cons in H1 as [H1a H1b]. inversion H2; subst.
+  apply sincr_cons_iff. split; [apply IH; assumption|].
+  intros y Hy. specialize (H1b y Hy). assert (x <> y) by (intro; subst; contradiction). lia.
+Qed.
+
+Lemma sincr_nondecr : forall l, sincr l -> nondecr l.
+Proof.
+  intros l Hs l1 x l2 y l3 E. subst l. apply sincr_app_inv in Hs as [_ [Hs _]].
+  apply sincr_cons_iff in Hs as [_ Hs]. assert (x < y); [|lia]. apply Hs. apply in_or_app. right. left. reflexivity.
+Qed.
+
+Definition stats0 : stats := {| st_min := u64max; st_max := 0; st_count := 0; st_sorted := true |}.
+Definition raw_stats (l : list N) : stats := fold_left stats_step l stats0.
+
+Lemma raw_stats_snoc : forall l v, raw_stats (l ++ [v]) = stats_step (raw_stats l) v.
+Proof. intros. unfold raw_stats. rewrite fold_left_app. reflexivity. Qed.
+
+Definition bounds (l : list N) (mn mx : N) : Prop :=
+  In mn l /\ In mx l /\ forall x, In x l -> mn <= x <= mx.
+
+Lemma raw_stats_spec : forall l, Forall (fun x => x < two64) l ->
+  st_count (raw_stats l) = len_N l
+  /\ (st_sorted (raw_stats l) = true <-> nondecr l)
+  /\ (l <> [] -> bounds l (st_min (raw_stats l)) (st_max (raw_stats l))).
+Proof.
+  induction l as [|v l IH] using rev_ind; intro Hall.
+  - split; [reflexivity|]. split; [split; [intros _; apply nondecr_nil | reflexivity]|]. congruence.
+  - apply Forall_app in Hall as [Hall Hv]. apply Forall_inv in Hv.
+    destruct (IH Hall) as [Hc [Hs Hb]]. rewrite raw_stats_snoc. unfold stats_step. cbn [st_count st_sorted st_min st_max].
+    split; [rewrite Hc, len_N_app; unfold len_N; cbn [length]; lia|].
+    destruct l as [|a l'].
+    + (* first element *)
+      cbn [raw_stats fold_left stats0 st_min st_max st_count st_sorted app] in *.
+      replace (0 + 1) with 1 by lia. rewrite N.ltb_irrefl, andb_false_r. cbn [andb].
+      split.
+      * split; [|reflexivity]. intros _ l1 x l2 y l3 E. destruct l1 as [|? [|? ?]]; try discriminate.
+        inversion E. destruct l2; discriminate.
+      * intros _. assert (Hb1 : forall m1 m2, m1 = v -> m2 = v -> bounds [v] m1 m2).
+        { intros m1 m2 -> ->. unfold bounds. split; [left; reflexivity|]. split; [left; reflexivity|]. intros z [<- | []]. lia. }
+        destruct (N.ltb_spec v u64max); destruct (N.ltb_spec 0 v); apply Hb1; unfold u64max, two64 in *; lia.
+    + set (l := a :: l') in *. assert (Hne : l <> []) by discriminate.
+      destruct (Hb Hne) as [Hmn [Hmx Hbd]]. set (st := raw_stats l) in *.
+      assert (H1lt : (1 <? st_count st + 1) = true).
+      { apply N.ltb_lt. rewrite Hc. unfold l. rewrite len_N_cons. lia. }
+      rewrite H1lt, andb_true_r.
+      split.
+      * rewrite nondecr_snoc.
+        destruct (st_sorted st) eqn:Es; cbn [andb].
+        -- destruct (N.ltb_spec (st_max st) v) as [Hlt | Hge].
+           ++ rewrite N.ltb_irrefl. split; [intros _; split; [apply Hs; reflexivity | intros x Hx; specialize (Hbd x Hx); lia] | reflexivity].
+           ++ destruct (N.ltb_spec v (st_max st)) as [Hlt2 | Hge2].
+              ** split; [discriminate|]. intros [_ H2]. specialize (H2 _ Hmx). lia.
+              ** split; [intros _; split; [apply Hs; reflexivity | intros x Hx; specialize (Hbd x Hx); lia] | reflexivity].
+        -- split; [discriminate|]. intros [H1 _]. apply Hs in H1. discriminate.
+      * intros _. unfold bounds.
+        destruct (N.ltb_spec v (st_min st)); destruct (N.ltb_spec (st_max st) v); (split; [|split]);
+          try (apply in_or_app; (left; assumption) || (right; left; reflexivity));
+          intros z Hz; apply in_app_or in Hz as [Hz | [<- | []]]; try specialize (Hbd z Hz); lia.
+Qed.
+
+Lemma compute_stats_spec : forall l, Forall (fun x => x < two64) l ->
+  st_count (compute_stats l) = len_N l
+  /\ (st_sorted (compute_stats l) = true <-> nondecr l)
+  /\ (l <> [] -> bounds l (st_min (compute_stats l)) (st_max (compute_stats l))).
+Proof.
+  intros l Hall. destruct (raw_stats_spec l Hall) as [Hc [Hs Hb]].
+  unfold compute_stats. fold stats0. fold (raw_stats l).
+  destruct (N.eqb_spec (st_count (raw_stats l)) 0) as [E | E]; cbn [st_count st_sorted st_min st_max].
+  - split; [assumption|]. split; [assumption|]. intro Hne. exfalso. rewrite Hc in E. destruct l; [congruence | rewrite len_N_cons in E; lia].
+  - split; [assumption|]. split; assumption.
+Qed.
+
+(* bounds of a strictly increasing list are its ends *)
+Lemma bounds_sincr_cons : forall x l mn mx, sincr (x :: l) -> bounds (x :: l) mn mx -> mn = x.
+Proof.
+  intros x l mn mx Hs [Hmn [_ Hb]]. destruct Hmn as [<- | Hmn]; [reflexivity|].
+  pose proof (sincr_head_lt x l Hs mn Hmn). specialize (Hb x (or_introl eq_refl)). lia.
+Qed.
+
+(* ------------------------------------------------------------------ *)
+(* from_stats                                                          *)
+(* ------------------------------------------------------------------ *)
+Lemma nsort_sincr : forall l, sincr l -> nsort l = l.
+Proof.
+  induction l as [|x l IH]; intro H; [reflexivity|].
+  unfold nsort in *. cbn [fold_right]. pose proof H as H0. apply sincr_cons_iff in H as [H1 H2]. rewrite IH by assumption.
+  destruct l as [|y l]; [reflexivity|]. cbn [ninsert]. specialize (H2 y (or_introl eq_refl)).
+  destruct (N.leb_spec x y); [reflexivity | lia].
+Qed.
+
+Lemma holes_in_spec : forall r l, sincr r -> sincr l -> (forall x, In x l -> In x r) ->
+  holes_in r l = filter (fun v => negb (memN v l)) r.
+Proof.
+  induction r as [|v vs IH]; intros l Hr Hl Hsub; [reflexivity|].
+  apply sincr_cons_iff in Hr as [Hr1 Hr2]. cbn [holes_in filter].
+  destruct l as [|e es].
+  - cbn [memN existsb negb]. f_equal. rewrite (IH [] Hr1 sincr_nil) by (intros x []). reflexivity.
+  - pose proof Hl as Hl0. apply sincr_cons_iff in Hl as [Hl1 Hl2].
+    destruct (N.eqb_spec e v) as [-> | Hne].
+    + replace (memN v (v :: es)) with true by (symmetry; apply memN_In; left; reflexivity). cbn [negb].
+      rewrite IH; [| assumption | assumption |].
+      * apply filter_ext_in. intros x Hx. f_equal. unfold memN. cbn [existsb].
+        destruct (N.eqb_spec x v); [subst; specialize (Hr2 v Hx); lia | reflexivity].
+      * intros x Hx. specialize (Hl2 x Hx). destruct (Hsub x (or_intror Hx)) as [<- | H]; [lia | assumption].
+    + assert (Hev : v < e).
+      { destruct (Hsub e (or_introl eq_refl)) as [E | H]; [congruence | apply Hr2; assumption]. }
+      assert (Hnot : memN v (e :: es) = false).
+      { apply memN_false. intros [E | H]; [lia | specialize (Hl2 v H); lia]. }
+      rewrite Hnot. cbn [negb]. f_equal. apply IH; [assumption | assumption |].
+      intros x Hx. destruct (Hsub x Hx) as [<- | H]; [|assumption].
+      destruct Hx as [E | Hx]; [lia | specialize (Hl2 v Hx); lia].
+Qed.
+
+Lemma bm_update_length : forall bm i b, length (bm_update bm i b) = length bm.
+Proof.
+  induction bm as [|x bm IH]; intros [|i] b; cbn [bm_update length]; try reflexivity. rewrite IH. reflexivity.
+Qed.
+
+Lemma bm_update_nth : forall bm i j b, (j < length bm)%nat ->
+  nth j (bm_update bm i b) false = if Nat.eqb j i then b else nth j bm false.
+Proof.
+  induction bm as [|x bm IH]; intros i j b Hj; [cbn [length] in Hj; lia|].
+  destruct i as [|i], j as [|j]; cbn [bm_update nth Nat.eqb]; try reflexivity.
+  apply IH. cbn [length] in Hj. lia.
+Qed.
+
+Lemma fold_clear_length : forall mn hs bm,
+  length (fold_left (fun bm h => bm_clear bm (h - mn)) hs bm) = length bm.
+Proof.
+  intros mn hs. induction hs as [|h hs IH]; intro bm; [reflexivity|].
+  cbn [fold_left]. rewrite IH. unfold bm_clear. apply bm_update_length.
+Qed.
+
+Lemma fold_clear_get : forall mn hs bm i, i < len_N bm ->
+  bm_get (fold_left (fun bm h => bm_clear bm (h - mn)) hs bm) i
+  = bm_get bm i && negb (existsb (fun h => h - mn =? i) hs).
+Proof.
+  intros mn hs. induction hs as [|h hs IH]; intros bm i Hi; [cbn [fold_left existsb negb]; rewrite andb_true_r; reflexivity|].
+  cbn [fold_left existsb]. rewrite IH by (unfold len_N, bm_clear in *; rewrite bm_update_length; assumption).
+  unfold bm_get, bm_clear. rewrite bm_update_nth by (unfold len_N in Hi; lia).
+  destruct (N.eqb_spec (h - mn) i) as [E | E].
+  - subst i. rewrite Nat.eqb_refl. cbn [orb negb andb]. rewrite andb_false_r. reflexivity.
+  - replace (Nat.eqb (N.to_nat i) (N.to_nat (h - mn))) with false by (symmetry; apply Nat.eqb_neq; lia).
+    cbn [orb]. reflexivity.
+Qed.
+
+Lemma bm_get_full : forall n i, i < n -> bm_get (bm_new_full n) i = true.
+Proof.
+  intros n i H. unfold bm_get, bm_new_full. apply nth_repeat_lt || idtac.
+  rewrite nth_indep with (d' := true) by (rewrite repeat_length; lia). apply nth_repeat.
+Qed.
+
+Definition no_sorted_overflow (st : stats) : Prop :=
+  st_sorted st = true -> 24 + 4 * (st_max st - st_min st + 1 - st_count st) < two64.
+
+Lemma sincr_len_span : forall l mn mx, sincr l -> (forall x, In x l -> mn <= x <= mx) -> len_N l <= mx + 1 - mn.
+Proof.
+  intros l mn mx Hs Hb.
+  rewrite <- (sincr_filter_range l mn (mx + 1) Hs) by (intros v Hv; specialize (Hb v Hv); lia).
+  etransitivity; [apply filter_len_le|]. rewrite range_iter_len. lia.
+Qed.
+
+Lemma sincr_full_range : forall l mn mx, sincr l -> (forall x, In x l -> mn <= x <= mx) -> len_N l = mx + 1 - mn ->
+  l = range_iter mn (mx + 1).
+Proof.
+  intros l mn mx Hs Hb Hlen.
+  pose proof (sincr_filter_range l mn (mx + 1) Hs) as Hf. rewrite <- Hf at 1 by (intros v Hv; specialize (Hb v Hv); lia).
+  assert (Hneg : len_N (filter (fun v => negb (memN v l)) (range_iter mn (mx + 1))) = 0).
+  { pose proof (filter_len_split (fun v => memN v l) (range_iter mn (mx + 1))) as Hsp.
+    rewrite Hf in Hsp by (intros v Hv; specialize (Hb v Hv); lia). rewrite range_iter_len in Hsp. lia. }
+  clear Hf. induction (range_iter mn (mx + 1)) as [|x r IH]; [reflexivity|].
+  cbn [filter] in *. destruct (memN x l); cbn [negb] in *.
+  - f_equal. apply IH. assumption.
+  - rewrite len_N_cons in Hneg. lia.
+Qed.
+
+Theorem from_stats_ok : forall st l,
+  st_count st = len_N l ->
+  (st_sorted st = true -> sincr l /\ (l <> [] -> bounds l (st_min st) (st_max st))) ->
+  (st_sorted st = false -> l <> []) ->
+  Forall (fun x => x < u64max) l ->
+  no_sorted_overflow st ->
+  exists sg, from_stats st l = Ok sg /\ seg_wf sg = true /\ seg_iter sg = l.
+Proof.
+  intros st l Hc Hs Hns Hall Hov. unfold from_stats.
+  assert (Hall64 : Forall (fun x => x < two64) l).
+  { eapply Forall_impl; [|exact Hall]. intros a Ha. unfold u64max in Ha. lia. }
+  destruct (st_sorted st) eqn:Es.
+  2:{ (* Array *)
+    eexists. split; [reflexivity|]. cbn [seg_wf seg_iter]. rewrite earr_of_list_iter. split; [|reflexivity].
+    rewrite earr_of_list_wf by assumption. rewrite earr_len_iter, earr_of_list_iter.
+    specialize (Hns eq_refl). destruct l; [congruence|]. reflexivity. }
+  destruct (Hs eq_refl) as [Hsi Hb]. clear Hs Hns.
+  destruct (N.eqb_spec (st_count st) 0) as [E0 | E0].
+  { unfold n_holes. rewrite E0. cbn [N.eqb obind]. replace (0 =? 0) with true by reflexivity. cbn [obind].
+    exists (SRange 0 0). split; [reflexivity|]. split; [reflexivity|].
+    rewrite Hc in E0. destruct l; [reflexivity | rewrite len_N_cons in E0; lia]. }
+  assert (Hne : l <> []) by (intro; subst; apply E0; rewrite Hc; reflexivity).
+  destruct (Hb Hne) as [Hmn [Hmx Hbd]].
+  set (mn := st_min st) in *. set (mx := st_max st) in *.
+  assert (Hmnmx : mn <= mx) by (specialize (Hbd mn Hmn); lia).
+  assert (Hmx64 : mx < u64max) by (rewrite Forall_forall in Hall; apply Hall; assumption).
+  pose proof (sincr_len_span l mn mx Hsi Hbd) as Hspan.
+  specialize (Hov Es). fold mn mx in Hov.
+  unfold n_holes. replace (st_count st =? 0) with false by (symmetry; apply N.eqb_neq; assumption).
+  unfold csub, cadd. fold mn mx.
+  replace (mn <=? mx) with true by (symmetry; apply N.leb_le; assumption). cbn [obind].
+  replace (mx - mn + 1 <? two64) with true by (symmetry; apply N.ltb_lt; unfold u64max in *; lia). cbn [obind].
+  replace (st_count st <=? mx - mn + 1) with true by (symmetry; apply N.leb_le; lia). cbn [obind].
+  destruct (N.eqb_spec (mx - mn + 1 - st_count st) 0) as [Eh | Eh].
+  { (* Range *)
+    replace (mx + 1 <? two64) with true by (symmetry; apply N.ltb_lt; unfold u64max in *; lia). cbn [obind].
+    exists (SRange mn (mx + 1)). split; [reflexivity|]. split.
+    - cbn [seg_wf]. apply andb_true_iff. split; [apply N.leb_le | apply N.ltb_lt]; unfold u64max in *; lia.
+    - cbn [seg_iter]. symmetry. apply sincr_full_range; [assumption | assumption | lia]. }
+  set (nh := mx - mn + 1 - st_count st) in *.
+  unfold seq_sizes, n_holes, csub, cadd, cmul. fold mn mx.
+  replace (st_count st =? 0) with false by (symmetry; apply N.eqb_neq; assumption).
+  replace (mn <=? mx) with true by (symmetry; apply N.leb_le; assumption). cbn [obind].
+  replace (mx - mn + 1 <? two64) with true by (symmetry; apply N.ltb_lt; unfold u64max in *; lia). cbn [obind].
+  replace (st_count st <=? mx - mn + 1) with true by (symmetry; apply N.leb_le; lia). cbn [obind]. fold nh.
+  replace (4 * nh <? two64) with true by (symmetry; apply N.ltb_lt; lia). cbn [obind].
+  replace (24 + 4 * nh <? two64) with true by (symmetry; apply N.ltb_lt; lia). cbn [obind].
+  replace (mx + 1 <? two64) with true by (symmetry; apply N.ltb_lt; unfold u64max in *; lia).
+  assert (Hinr : forall v, In v l -> mn <= v < mx + 1) by (intros v Hv; specialize (Hbd v Hv); lia).
+  assert (Hholes : holes_in (incl_range mn mx) l = filter (fun v => negb (memN v l)) (range_iter mn (mx + 1))).
+  { unfold incl_range. change (nrange mn (N.to_nat (mx + 1 - mn))) with (range_iter mn (mx + 1)).
+    apply holes_in_spec; [apply sincr_range_iter | assumption |]. intros x Hx. apply range_iter_In. apply Hinr. assumption. }
+  set (holes := filter (fun v => negb (memN v l)) (range_iter mn (mx + 1))) in *.
+  assert (Hhs : sincr holes) by (apply sincr_filter, sincr_range_iter).
+  assert (Hhin : forall x, In x holes -> mn <= x < mx + 1 /\ ~ In x l).
+  { intros x Hx. apply filter_In in Hx as [Hx1 Hx2]. apply range_iter_In in Hx1. split; [assumption|].
+    apply memN_false. destruct (memN x l); [discriminate | reflexivity]. }
+  match goal with |- context [N.min ?a (N.min ?b ?c)] => set (m := N.min a (N.min b c)); set (rwh := a) end.
+  destruct (m =? rwh).
+  - (* RangeWithHoles *)
+    cbn [obind]. eexists. split; [reflexivity|]. rewrite Hholes. rewrite nsort_sincr by assumption.
+    assert (Hwf : earr_wf (earr_of_list holes) = true).
+    { apply earr_of_list_wf. apply Forall_forall. intros x Hx. destruct (Hhin x Hx). unfold u64max in *. lia. }
+    split.
+    + cbn [seg_wf]. rewrite Hwf, earr_of_list_iter.
+      replace (strict_sorted holes) with true by (symmetry; apply strict_sorted_sincr; assumption).
+      replace (mn <? mx + 1) with true by (symmetry; apply N.ltb_lt; lia).
+      replace (mx + 1 <? two64) with true by (symmetry; apply N.ltb_lt; unfold u64max in *; lia).
+      cbn [andb]. apply forallb_forall. intros x Hx. destruct (Hhin x Hx) as [Hr _]. unfold in_range.
+      apply andb_true_iff. split; [apply N.leb_le | apply N.ltb_lt]; lia.
+    + rewrite holes_iter by assumption. rewrite earr_of_list_iter.
+      etransitivity; [|apply (sincr_filter_range l mn (mx + 1) Hsi Hinr)].
+      apply filter_ext_in. intros v Hv. unfold holes.
+      destruct (memN v l) eqn:E; cbn [negb].
+      * apply negb_true_iff. apply memN_false. rewrite filter_In. intros [_ H2]. rewrite E in H2. discriminate.
+      * apply negb_false_iff. apply memN_In. apply filter_In. split; [assumption | rewrite E; reflexivity].
+  - destruct (m =? _).
+    + (* RangeWithBitmap *)
+      cbn [obind]. eexists. split; [reflexivity|]. rewrite Hholes.
+      assert (Hlen : len_N (fold_left (fun bm h => bm_clear bm (h - mn)) holes (bm_new_full (mx - mn + 1))) = mx - mn + 1).
+      { unfold len_N. rewrite fold_clear_length. unfold bm_new_full. rewrite repeat_length. lia. }
+      split.
+      * cbn [seg_wf]. rewrite Hlen.
+        replace (mn <? mx + 1) with true by (symmetry; apply N.ltb_lt; lia).
+        replace (mx + 1 <? two64) with true by (symmetry; apply N.ltb_lt; unfold u64max in *; lia).
+        cbn [andb]. apply N.eqb_eq. lia.
+      * cbn [seg_iter]. etransitivity; [|apply (sincr_filter_range l mn (mx + 1) Hsi Hinr)].
+        apply filter_ext_in. intros v Hv. apply range_iter_In in Hv.
+        rewrite fold_clear_get by (unfold len_N, bm_new_full; rewrite repeat_length; lia).
+        rewrite bm_get_full by lia. cbn [andb].
+        destruct (memN v l) eqn:E.
+        -- apply negb_true_iff. apply not_true_iff_false. intro Hex. apply existsb_exists in Hex as [h [Hh1 Hh2]].
+           apply N.eqb_eq in Hh2. destruct (Hhin h Hh1) as [Hr Hnot]. assert (h = v) by lia. subst h.
+           apply Hnot. apply memN_In. assumption.
+        -- apply negb_false_iff. apply existsb_exists. exists v. split; [|apply N.eqb_refl].
+           apply filter_In. split; [apply range_iter_In; lia | rewrite E; reflexivity].
+    + (* SortedArray *)
+      eexists. split; [reflexivity|]. cbn [seg_wf seg_iter]. rewrite earr_of_list_iter. split; [|reflexivity].
+      rewrite earr_of_list_wf by assumption. rewrite earr_len_iter, earr_of_list_iter.
+      replace (strict_sorted l) with true by (symmetry; apply strict_sorted_sincr; assumption).
+      destruct l; [congruence | reflexivity].
+Qed.
+
+(* ------------------------------------------------------------------ *)
+(* from_slice holds exactly the ids                                    *)
+(* ------------------------------------------------------------------ *)
+Definition holds (sg : seg) (l : list N) : Prop := seg_wf sg = true /\ seg_iter sg = l.
+
+Lemma compute_stats_nil_sorted : forall l, Forall (fun x => x < two64) l -> st_sorted (compute_stats l) = false -> l <> [].
+Proof. intros l Hall H E. subst. vm_compute in H. discriminate. Qed.
+
+Theorem from_slice_holds : forall l,
+  Forall (fun x => x < two64) l -> NoDup l ->
+  Known_C34_u64max l = false -> Known_C34_span_overflow l = false ->
+  exists sg, from_slice l = Ok sg /\ holds sg l.
+Proof.
+  intros l Hall Hnd Hmax Hspan. unfold from_slice, holds.
+  destruct (compute_stats_spec l Hall) as [Hc [Hs Hb]].
+  apply from_stats_ok.
+  - assumption.
+  - intro Es. split; [apply nondecr_NoDup_sincr; [apply Hs; assumption | assumption] | assumption].
+  - apply compute_stats_nil_sorted. assumption.
+  - apply Forall_forall. intros x Hx. rewrite Forall_forall in Hall. specialize (Hall x Hx).
+    unfold Known_C34_u64max in Hmax. apply memN_false in Hmax.
+    assert (x <> u64max) by (intro; subst; contradiction). unfold u64max in *. lia.
+  - intro Es. unfold Known_C34_span_overflow in Hspan. rewrite Es in Hspan. cbn [andb] in Hspan.
+    destruct (N.eqb_spec (st_count (compute_stats l)) 0) as [E0 | E0]; cbn [negb andb] in Hspan.
+    + assert (l = []) by (rewrite Hc in E0; destruct l; [reflexivity | rewrite len_N_cons in E0; lia]). subst l.
+      vm_compute. reflexivity.
+    + apply N.leb_gt in Hspan. assumption.
+Qed.
+
+Theorem holds_accessors : forall sg l, holds sg l ->
+  seg_len sg = len_N l
+  /\ (forall i, seg_get sg i = nth_N l i)
+  /\ (forall v, seg_position sg v = index_of v l)
+  /\ (forall v, seg_contains sg v = memN v l).
+Proof.
+  intros sg l [Hwf <-]. split; [apply seg_len_iter; assumption|].
+  split; [intro; apply seg_get_iter; assumption|].
+  split; [intro; apply seg_position_iter; assumption | intro; apply seg_contains_iter; assumption].
+Qed.
+
+(* ------------------------------------------------------------------ *)
+(* the domain of the operations: unique ids, no u64::MAX, span < 2^62-6 (closed under sub-sequences) *)
+(* ------------------------------------------------------------------ *)
+Definition span_ok (l : list N) : Prop := forall x y, In x l -> In y l -> y - x < 2 ^ 62 - 6.
+Definition ids_ok (l : list N) : Prop := NoDup l /\ Forall (fun x => x < u64max) l /\ span_ok l.
+
+Inductive subseq : list N -> list N -> Prop :=
+| sub_nil : subseq [] []
+| sub_skip : forall x l' l, subseq l' l -> subseq l' (x :: l)
+| sub_keep : forall x l' l, subseq l' l -> subseq (x :: l') (x :: l).
+
+Lemma subseq_In : forall l' l, subseq l' l -> forall x, In x l' -> In x l.
+Proof.
+  intros l' l H. induction H; intros y Hy; [destruct Hy | right; apply IHsubseq; assumption|].
+  destruct Hy as [<- | Hy]; [left; reflexivity | right; apply IHsubseq; assumption].
+Qed.
+
+Lemma subseq_NoDup : forall l' l, subseq l' l -> NoDup l -> NoDup l'.
+Proof.
+  intros l' l H. induction H; intro Hnd; [constructor | inversion Hnd; subst; apply IHsubseq; assumption|].
+  inversion Hnd; subst. constructor; [|apply IHsubseq; assumption].
+  intro Hin. apply H2. eapply subseq_In; eauto.
+Qed.
+
+Lemma subseq_refl : forall l, subseq l l.
+Proof. induction l; constructor; assumption. Qed.
+
+Lemma subseq_nil_l : forall l, subseq [] l.
+Proof. induction l; constructor; assumption. Qed.
+
+Lemma subseq_filter : forall p l, subseq (filter p l) l.
+Proof. intros p. induction l as [|x l IH]; [constructor|]. cbn [filter]. destruct (p x); constructor; assumption. Qed.
+
+Lemma subseq_trans : forall l1 l2 l3, subseq l1 l2 -> subseq l2 l3 -> subseq l1 l3.
+Proof.
+  intros l1 l2 l3 H12 H23. revert l1 H12. induction H23; intros l1 H12.
+  - assumption.
+  - constructor. apply IHsubseq. assumption.
+  - inversion H12; subst; [constructor; apply IHsubseq; assumption | apply sub_keep; apply IHsubseq; assumption].
+Qed.
+
+Lemma subseq_app : forall a a' b b', subseq a' a -> subseq b' b -> subseq (a' ++ b') (a ++ b).
+Proof. intros a a' b b' Ha Hb. induction Ha; cbn [app]; [assumption | constructor; assumption | constructor; assumption]. Qed.
+
+Lemma subseq_firstn : forall n l, subseq (firstn n l) l.
+Proof.
+  intros n l. rewrite <- (firstn_skipn n l) at 2. rewrite <- (app_nil_r (firstn n l)) at 1.
+  apply subseq_app; [apply subseq_refl | apply subseq_nil_l].
+Qed.
+
+Lemma subseq_skipn : forall n l, subseq (skipn n l) l.
+Proof.
+  intros n l. rewrite <- (firstn_skipn n l) at 2. change (skipn n l) with ([] ++ skipn n l) at 1.
+  apply subseq_app; [apply subseq_nil_l | apply subseq_refl].
+Qed.
+
+Lemma subseq_sincr : forall l' l, subseq l' l -> sincr l -> sincr l'.
+Proof.
+  intros l' l H. induction H; intro Hs; [constructor | apply IHsubseq; eapply sincr_tail; eauto|].
+  apply sincr_cons_iff in Hs as [Hs1 Hs2]. apply sincr_cons_iff. split; [apply IHsubseq; assumption|].
+  intros y Hy. apply Hs2. eapply subseq_In; eauto.
+Qed.
+
+Lemma ids_ok_subseq : forall l' l, subseq l' l -> ids_ok l -> ids_ok l'.
+Proof.
+  intros l' l H [Hnd [Hall Hsp]]. split; [eapply subseq_NoDup; eauto|]. split.
+  - apply Forall_forall. intros x Hx. rewrite Forall_forall in Hall. apply Hall. eapply subseq_In; eauto.
+  - intros x y Hx Hy. apply Hsp; eapply subseq_In; eauto.
+Qed.
+
+Lemma ids_ok_from_slice : forall l, ids_ok l -> exists sg, from_slice l = Ok sg /\ holds sg l.
+Proof.
+  intros l [Hnd [Hall Hsp]].
+  assert (Hall64 : Forall (fun x => x < two64) l).
+  { eapply Forall_impl; [|exact Hall]. intros a Ha. unfold u64max in Ha. lia. }
+  apply from_slice_holds; try assumption.
+  - unfold Known_C34_u64max. apply memN_false. intro Hin. rewrite Forall_forall in Hall. specialize (Hall _ Hin). lia.
+  - unfold Known_C34_span_overflow. destruct (compute_stats_spec l Hall64) as [Hc [Hs Hb]].
+    destruct (st_sorted (compute_stats l)); [|reflexivity]. cbn [andb].
+    destruct (N.eqb_spec (st_count (compute_stats l)) 0) as [E0 | E0]; [reflexivity|]. cbn [negb andb].
+    apply N.leb_gt.
+    assert (Hne : l <> []) by (intro; subst; apply E0; rewrite Hc; reflexivity).
+    destruct (Hb Hne) as [Hmn [Hmx Hbd]]. specialize (Hsp _ _ Hmn Hmx).
+    assert (1 <= st_count (compute_stats l)) by lia.
+    change (2 ^ 62 - 6) with 4611686018427387898 in Hsp. unfold two64. lia.
+Qed.
+
+(* ------------------------------------------------------------------ *)
+(* slice                                                               *)
+(* ------------------------------------------------------------------ *)
+Theorem seg_slice_ok : forall sg offset len, seg_wf sg = true -> ids_ok (seg_iter sg) ->
+  exists sg', seg_slice sg offset len = Ok sg' /\ holds sg' (take_N len (skip_N offset (seg_iter sg))).
+Proof.
+  intros sg offset len Hwf Hok. unfold seg_slice. destruct (N.eqb_spec len 0) as [-> | Hne].
+  - exists (SRange 0 0). split; [reflexivity|]. split; reflexivity.
+  - apply ids_ok_from_slice. eapply ids_ok_subseq; [|exact Hok].
+    eapply subseq_trans; [apply subseq_firstn | apply subseq_skipn].
+Qed.
+
+(* ------------------------------------------------------------------ *)
+(* delete                                                              *)
+(* ------------------------------------------------------------------ *)
+Lemma drop_vals_spec : forall l vals, subseq vals l -> NoDup l ->
+  drop_vals l vals = filter (fun x => negb (memN x vals)) l.
+Proof.
+  intros l vals H. induction H; intro Hnd.
+  - reflexivity.
+  - inversion Hnd; subst. cbn [drop_vals filter].
+    assert (Hx : memN x l' = false) by (apply memN_false; intro Hin; apply H2; eapply subseq_In; eauto).
+    rewrite Hx. cbn [negb]. destruct l' as [|v vs].
+    + f_equal. rewrite IHsubseq by assumption. reflexivity.
+    + destruct (N.eqb_spec v x) as [-> | Hne]; [exfalso; apply memN_false in Hx; apply Hx; left; reflexivity|].
+      f_equal. apply IHsubseq. assumption.
+  - inversion Hnd; subst. cbn [drop_vals filter]. rewrite N.eqb_refl.
+    replace (memN x (x :: l')) with true by (symmetry; apply memN_In; left; reflexivity). cbn [negb].
+    rewrite IHsubseq by assumption. apply filter_ext_in. intros y Hy. f_equal. unfold memN. cbn [existsb].
+    destruct (N.eqb_spec y x); [subst; contradiction | reflexivity].
+Qed.
+
+Lemma last_opt_app {A} : forall (l : list A) x, last_opt (l ++ [x]) = Some x.
+Proof. intros. unfold last_opt. rewrite rev_app_distr. reflexivity. Qed.
+
+Lemma last_opt_in {A} : forall (l : list A) x, last_opt l = Some x -> In x l.
+Proof.
+  intros l x H. unfold last_opt in H. destruct (rev l) eqn:E; [discriminate|]. inversion H; subst.
+  apply in_rev. rewrite E. left. reflexivity.
+Qed.
+
+Lemma last_opt_some {A} : forall (l : list A), l <> [] -> exists x, last_opt l = Some x.
+Proof.
+  intros l H. destruct (exists_last H) as [l' [x ->]]. exists x. apply last_opt_app.
+Qed.
+
+Lemma sincr_last_max : forall l x, sincr l -> last_opt l = Some x -> forall y, In y l -> y <= x.
+Proof.
+  intros l x Hs Hl y Hy. destruct (list_eq_dec N.eq_dec l []) as [-> | Hne]; [destruct Hy|].
+  destruct (exists_last Hne) as [l' [z ->]]. rewrite last_opt_app in Hl. inversion Hl; subst.
+  apply sincr_app_inv in Hs as [_ [_ Hs]]. apply in_app_or in Hy as [Hy | [<- | []]]; [|lia].
+  specialize (Hs y x Hy (or_introl eq_refl)). lia.
+Qed.
+
+(* range() of a well-formed non-empty segment is Some interval that contains all its ids *)
+Lemma seg_range_contains : forall sg, seg_wf sg = true -> seg_iter sg <> [] ->
+  exists lo hi, seg_range sg = Ok (Some (lo, hi)) /\ forall v, In v (seg_iter sg) -> lo <= v <= hi.
+Proof.
+  intros [s e | s e h | s e bm | a | a] Hwf Hne; cbn [seg_range].
+  - cbn [seg_iter] in *. destruct (N.leb_spec e s); [exfalso; apply Hne; apply range_iter_empty; assumption|].
+    exists s, (e - 1). split; [reflexivity|]. intros v Hv. apply range_iter_In in Hv. lia.
+  - apply seg_wf_holes in Hwf as [Hse [He [Hw _]]]. destruct (N.eqb_spec e 0); [lia|].
+    exists s, (e - 1). split; [reflexivity|]. intros v Hv. cbn [seg_iter] in Hv. apply filter_In in Hv as [Hv _].
+    apply range_iter_In in Hv. lia.
+  - cbn [seg_wf] in Hwf. repeat (apply andb_true_iff in Hwf as [Hwf ?]). apply N.ltb_lt in Hwf.
+    destruct (N.eqb_spec e 0); [lia|].
+    exists s, (e - 1). split; [reflexivity|]. intros v Hv. cbn [seg_iter] in Hv. apply filter_In in Hv as [Hv _].
+    apply range_iter_In in Hv. lia.
+  - cbn [seg_wf] in Hwf. repeat (apply andb_true_iff in Hwf as [Hwf ?]). apply strict_sorted_sincr in H0.
+    cbn [seg_iter] in *.
+    assert (Hf : exists x, earr_first a = Some x /\ In x (earr_iter a) /\ forall v, In v (earr_iter a) -> x <= v).
+    { destruct a as [b o | b o | vs]; cbn [earr_first earr_iter] in *.
+      - destruct o as [|x o]; [exfalso; apply Hne; reflexivity|]. exists (b + x). split; [reflexivity|]. split; [left; reflexivity|].
+        intros v [<- | Hv]; [lia|]. cbn [map] in H0. pose proof (sincr_head_lt _ _ H0 v Hv). lia.
+      - destruct o as [|x o]; [exfalso; apply Hne; reflexivity|]. exists (b + x). split; [reflexivity|]. split; [left; reflexivity|].
+        intros v [<- | Hv]; [lia|]. cbn [map] in H0. pose proof (sincr_head_lt _ _ H0 v Hv). lia.
+      - destruct vs as [|x o]; [exfalso; apply Hne; reflexivity|]. exists x. split; [reflexivity|]. split; [left; reflexivity|].
+        intros v [<- | Hv]; [lia|]. pose proof (sincr_head_lt _ _ H0 v Hv). lia. }
+    assert (Hl : exists y, earr_last a = Some y /\ forall v, In v (earr_iter a) -> v <= y).
+    { destruct (last_opt_some (earr_iter a) Hne) as [y Hy]. exists y. split; [|apply sincr_last_max; assumption].
+      destruct a as [b o | b o | vs]; cbn [earr_last earr_iter] in *; try assumption.
+      - unfold last_opt in *. rewrite <- map_rev in Hy. destruct (rev o); [discriminate|]. cbn [map] in Hy. inversion Hy. reflexivity.
+      - unfold last_opt in *. rewrite <- map_rev in Hy. destruct (rev o); [discriminate|]. cbn [map] in Hy. inversion Hy. reflexivity. }
+    destruct Hf as [x [Hx1 [_ Hx3]]]. destruct Hl as [y [Hy1 Hy2]]. rewrite Hx1, Hy1.
+    exists x, y. split; [reflexivity|]. intros v Hv. split; [apply Hx3 | apply Hy2]; assumption.
+  - cbn [seg_iter] in *.
+    assert (Hm : exists x y, earr_min a = Some x /\ earr_max a = Some y /\ forall v, In v (earr_iter a) -> x <= v <= y).
+    { destruct a as [b o | b o | vs]; cbn [earr_min earr_max earr_iter] in *.
+      - assert (Ho : o <> []) by (intro; subst; apply Hne; reflexivity).
+        destruct (list_max_some o Ho) as [m Hm]. rewrite Hm. exists b, (b + m). destruct o; [congruence|].
+        split; [reflexivity|]. split; [reflexivity|]. intros v Hv. apply in_map_iff in Hv as [z [<- Hz]].
+        pose proof (list_max_ge _ _ Hm z Hz). lia.
+      - assert (Ho : o <> []) by (intro; subst; apply Hne; reflexivity).
+        destruct (list_max_some o Ho) as [m Hm]. rewrite Hm. exists b, (b + m). destruct o; [congruence|].
+        split; [reflexivity|]. split; [reflexivity|]. intros v Hv. apply in_map_iff in Hv as [z [<- Hz]].
+        pose proof (list_max_ge _ _ Hm z Hz). lia.
+      - destruct (list_min_some vs Hne) as [x Hx]. destruct (list_max_some vs Hne) as [y Hy]. rewrite Hx, Hy.
+        exists x, y. split; [reflexivity|]. split; [reflexivity|]. intros v Hv.
+        pose proof (list_min_le _ _ Hx v Hv). pose proof (list_max_ge _ _ Hy v Hv). lia. }
+    destruct Hm as [x [y [Hx [Hy Hb]]]]. rewrite Hx, Hy. exists x, y. split; [reflexivity | assumption].
+Qed.
+
+Theorem seg_delete_ok : forall sg vals, seg_wf sg = true -> ids_ok (seg_iter sg) -> subseq vals (seg_iter sg) ->
+  exists sg', seg_delete sg vals = Ok sg' /\ holds sg' (filter (fun x => negb (memN x vals)) (seg_iter sg)).
+Proof.
+  intros sg vals Hwf Hok Hsub. unfold seg_delete.
+  assert (Hassert : (match vals with
+           | [] => Ok tt
+           | _ => do r <- seg_range sg;
+                  match r with
+                  | None => Panic
+                  | Some (lo, hi) => if forallb (fun v => (lo <=? v) && (v <=? hi)) vals then Ok tt else Panic
+                  end
+           end) = Ok tt).
+  { destruct vals as [|v0 vs] eqn:Ev; [reflexivity|]. rewrite <- Ev in *.
+    assert (Hne : seg_iter sg <> []).
+    { intro E. rewrite E in Hsub. inversion Hsub. subst. discriminate. }
+    destruct (seg_range_contains sg Hwf Hne) as [lo [hi [Hr Hb]]]. rewrite Hr. cbn [obind].
+    replace (forallb _ vals) with true; [reflexivity|]. symmetry. apply forallb_forall. intros v Hv.
+    specialize (Hb v (subseq_In _ _ Hsub v Hv)). apply andb_true_iff. split; apply N.leb_le; lia. }
+  rewrite Hassert. cbn [obind].
+  rewrite drop_vals_spec by (try assumption; apply Hok).
+  change (from_stats (compute_stats ?l) ?l) with (from_slice l).
+  apply ids_ok_from_slice. eapply ids_ok_subseq; [apply subseq_filter | exact Hok].
+Qed.
+
+(* ------------------------------------------------------------------ *)
+(* RowIdSequence: len / iter / extend / get / slice / select           *)
+(* ------------------------------------------------------------------ *)
+Lemma nth_N_app {A} : forall (l1 l2 : list A) i,
+  nth_N (l1 ++ l2) i = if i <? len_N l1 then nth_N l1 i else nth_N l2 (i - len_N l1).
+Proof.
+  intros l1 l2 i. unfold nth_N, len_N. destruct (N.ltb_spec i (N.of_nat (length l1))).
+  - apply nth_error_app1. lia.
+  - rewrite nth_error_app2 by lia. f_equal. lia.
+Qed.
+
+Lemma take_N_app_le {A} : forall (l1 l2 : list A) n, n <= len_N l1 -> take_N n (l1 ++ l2) = take_N n l1.
+Proof.
+  intros l1 l2 n H. unfold take_N, len_N in *. rewrite firstn_app.
+  replace (N.to_nat n - length l1)%nat with O by lia. cbn [firstn]. apply app_nil_r.
+Qed.
+
+Lemma take_N_app_ge {A} : forall (l1 l2 : list A) n, len_N l1 <= n -> take_N n (l1 ++ l2) = l1 ++ take_N (n - len_N l1) l2.
+Proof.
+  intros l1 l2 n H. unfold take_N, len_N in *. rewrite firstn_app.
+  rewrite firstn_all2 by lia. f_equal. f_equal. lia.
+Qed.
+
+Lemma skip_N_app_le {A} : forall (l1 l2 : list A) n, n <= len_N l1 -> skip_N n (l1 ++ l2) = skip_N n l1 ++ l2.
+Proof.
+  intros l1 l2 n H. unfold skip_N, len_N in *. rewrite skipn_app.
+  replace (N.to_nat n - length l1)%nat with O by lia. reflexivity.
+Qed.
+
+Lemma skip_N_app_ge {A} : forall (l1 l2 : list A) n, len_N l1 <= n -> skip_N n (l1 ++ l2) = skip_N (n - len_N l1) l2.
+Proof.
+  intros l1 l2 n H. unfold skip_N, len_N in *. rewrite skipn_app.
+  rewrite skipn_all2 by lia. cbn [app]. f_equal. lia.
+Qed.
+
+Lemma rseq_wf_cons : forall sg q, rseq_wf (sg :: q) = true <-> seg_wf sg = true /\ rseq_wf q = true.
+Proof. intros. unfold rseq_wf. cbn [forallb]. apply andb_true_iff. Qed.
+
+Lemma rseq_wf_app : forall a b, rseq_wf (a ++ b) = true <-> rseq_wf a = true /\ rseq_wf b = true.
+Proof. intros. unfold rseq_wf. rewrite forallb_app. apply andb_true_iff. Qed.
+
+Lemma rs_iter_app : forall a b, rs_iter (a ++ b) = rs_iter a ++ rs_iter b.
+Proof. intros. unfold rs_iter. apply flat_map_app. Qed.
+
+Lemma rs_iter_cons : forall sg q, rs_iter (sg :: q) = seg_iter sg ++ rs_iter q.
+Proof. reflexivity. Qed.
+
+Lemma rs_len_go : forall q acc, rseq_wf q = true ->
+  fold_left (fun acc sg => acc + seg_len sg) q acc = acc + len_N (rs_iter q).
+Proof.
+  induction q as [|sg q IH]; intros acc Hwf; [cbn [fold_left rs_iter flat_map]; rewrite len_N_nil; lia|].
+  apply rseq_wf_cons in Hwf as [H1 H2]. cbn [fold_left]. rewrite IH by assumption.
+  rewrite rs_iter_cons. rewrite len_N_app. rewrite (seg_len_iter sg H1). lia.
+Qed.
+
+Theorem rs_len_iter : forall q, rseq_wf q = true -> rs_len q = len_N (rs_iter q).
+Proof. intros q H. unfold rs_len. rewrite rs_len_go by assumption. lia. Qed.
+
+Lemma last_opt_split {A} : forall (l : list A) x, last_opt l = Some x -> l = removelast l ++ [x].
+Proof.
+  intros l x H. destruct l as [|y l]; [discriminate|].
+  assert (Hne : y :: l <> []) by discriminate. destruct (exists_last Hne) as [l' [z E]]. rewrite E in *.
+  rewrite last_opt_app in H. inversion H; subst. rewrite removelast_last. reflexivity.
+Qed.
+
+Theorem rs_extend_ok : forall a b, rseq_wf a = true -> rseq_wf b = true ->
+  rseq_wf (rs_extend a b) = true /\ rs_iter (rs_extend a b) = rs_iter a ++ rs_iter b.
+Proof.
+  intros a b Ha Hb. unfold rs_extend.
+  assert (Hdefault : rseq_wf (a ++ b) = true /\ rs_iter (a ++ b) = rs_iter a ++ rs_iter b).
+  { split; [apply rseq_wf_app; split; assumption | apply rs_iter_app]. }
+  destruct (last_opt a) as [[s1 e1 | | | | ]|] eqn:El; try exact Hdefault.
+  destruct b as [|[s2 e2 | | | | ] b']; try exact Hdefault.
+  destruct (N.eqb_spec e1 s2) as [-> | Hne]; [|exact Hdefault].
+  apply last_opt_split in El. rewrite El in Ha. apply rseq_wf_app in Ha as [Ha1 Ha2].
+  apply rseq_wf_cons in Ha2 as [Ha2 _]. apply rseq_wf_cons in Hb as [Hb1 Hb2].
+  cbn [seg_wf] in Ha2, Hb1. apply andb_true_iff in Ha2 as [Ha2 _]. apply andb_true_iff in Hb1 as [Hb1 Hb1'].
+  apply N.leb_le in Ha2. apply N.leb_le in Hb1.
+  split.
+  - apply rseq_wf_app. split; [assumption|]. cbn [app]. apply rseq_wf_cons. split; [|assumption].
+    cbn [seg_wf]. apply andb_true_iff. split; [apply N.leb_le; lia | assumption].
+  - set (r := removelast a) in *. rewrite El. rewrite !rs_iter_app. rewrite !rs_iter_cons.
+    cbn [seg_iter rs_iter flat_map]. rewrite !app_nil_r. rewrite <- !app_assoc. f_equal. rewrite app_assoc. f_equal.
+    apply range_iter_split. lia.
+Qed.
+
+Lemma rs_get_go_spec : forall q index offset, rseq_wf q = true -> offset <= index ->
+  rs_get_go q index offset = nth_N (rs_iter q) (index - offset).
+Proof.
+  induction q as [|sg q IH]; intros index offset Hwf Hle.
+  - cbn. unfold nth_N. destruct (N.to_nat (index - offset)); reflexivity.
+  - apply rseq_wf_cons in Hwf as [H1 H2]. cbn [rs_get_go]. rewrite rs_iter_cons, nth_N_app.
+    rewrite seg_len_iter by assumption.
+    destruct (N.ltb_spec index (offset + len_N (seg_iter sg))).
+    + replace (index - offset <? len_N (seg_iter sg)) with true by (symmetry; apply N.ltb_lt; lia).
+      apply seg_get_iter. assumption.
+    + replace (index - offset <? len_N (seg_iter sg)) with false by (symmetry; apply N.ltb_ge; lia).
+      rewrite IH by (assumption || lia). f_equal. lia.
+Qed.
+
+Theorem rs_get_ok : forall q i, rseq_wf q = true -> rs_get q i = nth_N (rs_iter q) i.
+Proof. intros. unfold rs_get. rewrite rs_get_go_spec by (assumption || lia). f_equal. lia. Qed.
+
+(* slice *)
+Lemma slice_start_spec : forall q offset, rseq_wf q = true -> offset < len_N (rs_iter q) ->
+  exists sg rest os, slice_start q offset = (sg :: rest, os) /\ rseq_wf (sg :: rest) = true
+    /\ os < len_N (seg_iter sg) /\ skip_N offset (rs_iter q) = skip_N os (rs_iter (sg :: rest)).
+Proof.
+  induction q as [|sg q IH]; intros offset Hwf Hlt; [cbn [rs_iter flat_map] in Hlt; rewrite len_N_nil in Hlt; lia|].
+  pose proof Hwf as Hwf0. apply rseq_wf_cons in Hwf as [H1 H2]. cbn [slice_start]. rewrite seg_len_iter by assumption.
+  destruct (N.ltb_spec offset (len_N (seg_iter sg))).
+  - exists sg, q, offset. repeat split; assumption.
+  - rewrite rs_iter_cons, len_N_app in Hlt.
+    destruct (IH (offset - len_N (seg_iter sg)) H2) as [sg' [rest [os [E [Hw [Hos Hsk]]]]]]; [lia|].
+    exists sg', rest, os. split; [assumption|]. split; [assumption|]. split; [assumption|].
+    rewrite rs_iter_cons, skip_N_app_ge by assumption. assumption.
+Qed.
+
+Lemma slice_end_spec : forall q n acc, rseq_wf q = true -> 0 < n -> n <= len_N (rs_iter q) ->
+  exists segs ol, slice_end q n acc = Ok (acc ++ segs, ol) /\ segs <> []
+    /\ slice_iter_tail segs ol = take_N n (rs_iter q)
+    /\ (forall sg, segs = [sg] -> ol = n /\ n <= len_N (seg_iter sg)).
+Proof.
+  induction q as [|sg q IH]; intros n acc Hwf Hpos Hle; [cbn [rs_iter flat_map] in Hle; rewrite len_N_nil in Hle; lia|].
+  apply rseq_wf_cons in Hwf as [H1 H2]. cbn [slice_end]. rewrite seg_len_iter by assumption.
+  rewrite rs_iter_cons in *. rewrite len_N_app in Hle.
+  destruct (N.leb_spec n (len_N (seg_iter sg))).
+  - exists [sg], n. split; [reflexivity|]. split; [discriminate|]. split; [|intros sg0 E0; inversion E0; subst; split; [reflexivity | assumption]].
+    cbn [slice_iter_tail]. rewrite take_N_app_le by assumption. reflexivity.
+  - destruct (IH (n - len_N (seg_iter sg)) (acc ++ [sg]) H2) as [segs [ol [E [Hne [Ht _]]]]]; [lia | lia |].
+    exists (sg :: segs), ol. split; [rewrite E; rewrite <- app_assoc; reflexivity|]. split; [discriminate|]. split.
+    + destruct segs as [|s2 segs']; [congruence|]. cbn [slice_iter_tail] in *. rewrite Ht.
+      rewrite take_N_app_ge by lia. reflexivity.
+    + intros sg0 E0. inversion E0; subst. congruence.
+Qed.
+
+Lemma skip_take_comm {A} : forall (l : list A) m n, skip_N m (take_N n l) = take_N (n - m) (skip_N m l).
+Proof.
+  intros. unfold skip_N, take_N. rewrite skipn_firstn_comm. f_equal.
+  destruct (N.leb_spec m n); lia.
+Qed.
+
+Theorem rs_slice_ok : forall q offset len, rseq_wf q = true -> offset + len <= len_N (rs_iter q) ->
+  rs_slice q offset len = Ok (take_N len (skip_N offset (rs_iter q))).
+Proof.
+  intros q offset len Hwf Hle. unfold rs_slice. destruct (N.eqb_spec len 0) as [-> | Hne]; [reflexivity|].
+  destruct (slice_start_spec q offset Hwf) as [sg [rest [os [E [Hw [Hos Hsk]]]]]]; [lia|].
+  rewrite E. rewrite Hsk.
+  assert (Hlen : len_N (skip_N offset (rs_iter q)) = len_N (rs_iter q) - offset).
+  { unfold skip_N, len_N. rewrite skipn_length. lia. }
+  assert (Hlen2 : len_N (skip_N os (rs_iter (sg :: rest))) = len_N (rs_iter (sg :: rest)) - os).
+  { unfold skip_N, len_N. rewrite skipn_length. lia. }
+  rewrite Hsk in Hlen.
+  destruct (slice_end_spec (sg :: rest) (os + len) [] Hw) as [segs [ol [E2 [Hne2 [Ht Hone]]]]]; [lia | lia |].
+  rewrite E2. cbn [obind app].
+  assert (Hsegs : exists rest', segs = sg :: rest').
+  { cbn [slice_end] in E2. destruct (_ <=? _) in E2.
+    - inversion E2. eexists; reflexivity.
+    - clear -E2. assert (forall q n acc r, slice_end q n acc = Ok r -> exists t, fst r = acc ++ t).
+      { induction q as [|s q IH]; intros n acc r H; [discriminate|]. cbn [slice_end] in H. destruct (_ <=? _) in H.
+        - inversion H. eexists; reflexivity.
+        - apply IH in H as [t Ht]. exists (s :: t). rewrite Ht, <- app_assoc. reflexivity. }
+      apply H in E2 as [t Ht]. cbn [fst app] in Ht. exists t. exact Ht. }
+  destruct Hsegs as [rest' ->].
+  destruct rest' as [|s2 rest''].
+  - destruct (Hone sg eq_refl) as [-> Hfit]. unfold csub. replace (os <=? os + len) with true by (symmetry; apply N.leb_le; lia).
+    cbn [obind]. replace (os + len - os) with len by lia. cbn [slice_iter_tail] in Ht.
+    f_equal. rewrite rs_iter_cons. rewrite skip_N_app_le by lia.
+    rewrite take_N_app_le; [reflexivity|]. unfold skip_N, len_N in *. rewrite skipn_length. lia.
+  - f_equal. change (slice_iter_tail (sg :: s2 :: rest'') ol) with (seg_iter sg ++ slice_iter_tail (s2 :: rest'') ol) in Ht.
+    assert (skip_N os (seg_iter sg ++ slice_iter_tail (s2 :: rest'') ol) = skip_N os (take_N (os + len) (rs_iter (sg :: rest)))) by (rewrite Ht; reflexivity).
+    rewrite skip_N_app_le in H by lia. rewrite H. rewrite skip_take_comm. f_equal. lia.
+Qed.
+
+(* ------------------------------------------------------------------ *)
+(* select                                                              *)
+(* ------------------------------------------------------------------ *)
+Definition opt_list {A} (o : option A) : list A := match o with Some x => [x] | None => [] end.
+Definition select_spec (l : list N) (sel : list N) : list N := flat_map (fun i => opt_list (nth_N l i)) sel.
+
+Fixpoint sorted_from (b : N) (sel : list N) : Prop :=
+  match sel with [] => True | i :: r => b <= i /\ sorted_from i r end.
+
+Lemma select_advance_spec : forall (rest : rseq) c index rp P L,
+  rseq_wf (c :: rest) = true -> L = P ++ seg_iter c ++ rs_iter rest -> len_N P = rp -> rp <= index ->
+  match select_advance c rest index rp with
+  | Some (c', rest', rp') =>
+      exists P', L = P' ++ seg_iter c' ++ rs_iter rest' /\ len_N P' = rp'
+                 /\ rp' <= index < rp' + len_N (seg_iter c') /\ rseq_wf (c' :: rest') = true
+  | None => len_N L <= index
+  end.
+Proof.
+  induction rest as [|nx rest IH]; intros c index rp P L Hwf HL HP Hle.
+  - cbn [select_advance]. pose proof Hwf as Hwf0. apply rseq_wf_cons in Hwf as [H1 _]. rewrite seg_len_iter by assumption.
+    destruct (N.ltb_spec (index - rp) (len_N (seg_iter c))).
+    + exists P. repeat split; try assumption; lia.
+    + subst L. rewrite !len_N_app. cbn [rs_iter flat_map]. rewrite len_N_nil. lia.
+  - cbn [select_advance]. pose proof Hwf as Hwf0. apply rseq_wf_cons in Hwf as [H1 H2]. rewrite seg_len_iter by assumption.
+    destruct (N.ltb_spec (index - rp) (len_N (seg_iter c))).
+    + exists P. repeat split; try assumption; lia.
+    + apply (IH nx index (rp + len_N (seg_iter c)) (P ++ seg_iter c) L); try assumption.
+      * rewrite HL, rs_iter_cons, <- !app_assoc. reflexivity.
+      * rewrite len_N_app. lia.
+      * lia.
+Qed.
+
+Lemma select_none : forall sel rp last L, sorted_from last sel -> len_N L <= last ->
+  rs_select_go None rp last sel = Ok (select_spec L sel).
+Proof.
+  induction sel as [|i sel IH]; intros rp last L Hs Hl; [reflexivity|].
+  destruct Hs as [Hs1 Hs2]. cbn [rs_select_go]. replace (i <? last) with false by (symmetry; apply N.ltb_ge; assumption).
+  rewrite (IH rp i L) by (assumption || lia). unfold select_spec. cbn [flat_map].
+  rewrite nth_N_none by lia. reflexivity.
+Qed.
+
+Lemma select_some : forall sel c (rest : rseq) rp last P L,
+  rseq_wf (c :: rest) = true -> L = P ++ seg_iter c ++ rs_iter rest -> len_N P = rp -> rp <= last ->
+  sorted_from last sel ->
+  rs_select_go (Some (c, rest)) rp last sel = Ok (select_spec L sel).
+Proof.
+  induction sel as [|i sel IH]; intros c rest rp last P L Hwf HL HP Hle Hs; [reflexivity|].
+  destruct Hs as [Hs1 Hs2]. cbn [rs_select_go]. replace (i <? last) with false by (symmetry; apply N.ltb_ge; assumption).
+  pose proof (select_advance_spec rest c i rp P L Hwf HL HP) as Hadv.
+  destruct (select_advance c rest i rp) as [[[c' rest'] rp']|].
+  - destruct Hadv as [P' [HL' [HP' [Hr Hwf']]]]; [lia|].
+    pose proof Hwf' as Hwf0. apply rseq_wf_cons in Hwf' as [Hc' _].
+    rewrite seg_get_iter by assumption.
+    assert (Hnth : nth_N L i = nth_N (seg_iter c') (i - rp')).
+    { rewrite HL'. rewrite nth_N_app. replace (i <? len_N P') with false by (symmetry; apply N.ltb_ge; lia).
+      rewrite nth_N_app. rewrite HP'. replace (i - rp' <? len_N (seg_iter c')) with true by (symmetry; apply N.ltb_lt; lia). reflexivity. }
+    destruct (nth_N_some (seg_iter c') (i - rp')) as [v Hv]; [lia|].
+    rewrite Hv. cbv iota beta. assert (Hgo := IH c' rest' rp' i P' L Hwf0 HL' HP' ltac:(lia) Hs2). rewrite Hgo. cbn [obind].
+    unfold select_spec. cbn [flat_map]. rewrite Hnth, Hv. reflexivity.
+  - specialize (Hadv ltac:(lia)). rewrite (select_none sel rp i L) by assumption.
+    unfold select_spec. cbn [flat_map]. rewrite nth_N_none by assumption. reflexivity.
+Qed.
+
+Theorem rs_select_ok : forall q sel, rseq_wf q = true -> sorted_from 0 sel ->
+  rs_select q sel = Ok (select_spec (rs_iter q) sel).
+Proof.
+  intros q sel Hwf Hs. unfold rs_select. destruct q as [|c rest].
+  - apply select_none; [assumption | cbn; lia].
+  - apply (select_some sel c rest 0 0 [] (rs_iter (c :: rest))); try assumption; try reflexivity; lia.
+Qed.
+
+(* ------------------------------------------------------------------ *)
+(* RowIdSequence::delete                                               *)
+(* ------------------------------------------------------------------ *)
+Lemma ninsert_In : forall x l y, In y (ninsert x l) <-> y = x \/ In y l.
+Proof.
+  intros x l y. induction l as [|z l IH]; cbn [ninsert In]; [intuition congruence|].
+  destruct (x <=? z); cbn [In]; [intuition congruence|]. rewrite IH. intuition congruence.
+Qed.
+
+Lemma ninsert_sincr : forall x l, sincr l -> ~ In x l -> sincr (ninsert x l).
+Proof.
+  intros x l. induction l as [|z l IH]; intros Hs Hn; [constructor|].
+  cbn [ninsert]. destruct (N.leb_spec x z).
+  - apply sincr_cons_iff. split; [assumption|]. intros y [<- | Hy].
+    + assert (x <> z) by (intro; subst; apply Hn; left; reflexivity). lia.
+    + pose proof (sincr_head_lt z l Hs y Hy). lia.
+  - apply sincr_cons_iff in Hs as [Hs1 Hs2]. apply sincr_cons_iff. split.
+    + apply IH; [assumption | intro; apply Hn; right; assumption].
+    + intros y Hy. apply ninsert_In in Hy as [-> | Hy]; [assumption | apply Hs2; assumption].
+Qed.
+
+Lemma nsort_In : forall l y, In y (nsort l) <-> In y l.
+Proof.
+  induction l as [|x l IH]; intro y; [reflexivity|]. unfold nsort in *. cbn [fold_right In].
+  rewrite ninsert_In, IH. intuition congruence.
+Qed.
+
+Lemma nsort_NoDup_sincr : forall l, NoDup l -> sincr (nsort l).
+Proof.
+  induction l as [|x l IH]; intro H; [constructor|]. inversion H; subst. unfold nsort in *. cbn [fold_right].
+  apply ninsert_sincr; [apply IH; assumption|]. fold (nsort l). rewrite nsort_In. assumption.
+Qed.
+
+(* elements of l at the given positions *)
+Definition pick (l : list N) (ps : list N) : list N := flat_map (fun p => opt_list (nth_N l p)) ps.
+
+Lemma pick_cons_pos : forall x l ps, (forall p, In p ps -> 0 < p) ->
+  pick (x :: l) ps = pick l (map (fun p => p - 1) ps).
+Proof.
+  intros x l ps. induction ps as [|p ps IH]; intro H; [reflexivity|].
+  unfold pick in *. cbn [flat_map map]. rewrite IH by (intros; apply H; right; assumption).
+  f_equal. rewrite nth_N_pos by (apply H; left; reflexivity). reflexivity.
+Qed.
+
+Lemma sincr_map_pred : forall ps, sincr ps -> (forall p, In p ps -> 0 < p) -> sincr (map (fun p => p - 1) ps).
+Proof.
+  induction ps as [|p ps IH]; intros Hs Hp; [constructor|].
+  apply sincr_cons_iff in Hs as [Hs1 Hs2]. cbn [map]. apply sincr_cons_iff. split.
+  - apply IH; [assumption | intros; apply Hp; right; assumption].
+  - intros y Hy. apply in_map_iff in Hy as [z [<- Hz]]. specialize (Hs2 z Hz).
+    specialize (Hp p (or_introl eq_refl)). lia.
+Qed.
+
+Lemma pick_subseq : forall l ps, sincr ps -> (forall p, In p ps -> p < len_N l) -> subseq (pick l ps) l.
+Proof.
+  induction l as [|x l IH]; intros ps Hs Hlt.
+  - destruct ps as [|p ps]; [constructor|]. specialize (Hlt p (or_introl eq_refl)). rewrite len_N_nil in Hlt. lia.
+  - destruct ps as [|p ps]; [apply subseq_nil_l|].
+    pose proof Hs as Hs0. apply sincr_cons_iff in Hs as [Hs1 Hs2].
+    destruct (N.eqb_spec p 0) as [-> | Hp].
+    + unfold pick. cbn [flat_map]. rewrite nth_N_0. cbn [opt_list app]. apply sub_keep.
+      fold (pick (x :: l) ps). rewrite pick_cons_pos by (intros q Hq; specialize (Hs2 q Hq); lia).
+      apply IH.
+      * apply sincr_map_pred; [assumption | intros q Hq; specialize (Hs2 q Hq); lia].
+      * intros q Hq. apply in_map_iff in Hq as [z [<- Hz]]. specialize (Hlt z (or_intror Hz)). specialize (Hs2 z Hz).
+        rewrite len_N_cons in Hlt. lia.
+    + assert (Hall : forall q, In q (p :: ps) -> 0 < q).
+      { intros q [<- | Hq]; [lia | specialize (Hs2 q Hq); lia]. }
+      rewrite pick_cons_pos by assumption. apply sub_skip. apply IH.
+      * apply sincr_map_pred; assumption.
+      * intros q Hq. apply in_map_iff in Hq as [z [<- Hz]]. specialize (Hlt z Hz). specialize (Hall z Hz).
+        rewrite len_N_cons in Hlt. lia.
+Qed.
+
+Lemma pick_In : forall l ps x, In x (pick l ps) <-> exists p, In p ps /\ nth_N l p = Some x.
+Proof.
+  intros l ps x. unfold pick. rewrite in_flat_map. split.
+  - intros [p [Hp Hx]]. exists p. split; [assumption|]. destruct (nth_N l p); cbn [opt_list In] in Hx; [|destruct Hx].
+    destruct Hx as [-> | []]. reflexivity.
+  - intros [p [Hp Hx]]. exists p. split; [assumption|]. rewrite Hx. left. reflexivity.
+Qed.
+
+Lemma map_get_pick : forall sg ps, seg_wf sg = true -> (forall p, In p ps -> p < len_N (seg_iter sg)) ->
+  map_get sg ps = Ok (pick (seg_iter sg) ps).
+Proof.
+  intros sg ps Hwf. induction ps as [|p ps IH]; intro Hlt; [reflexivity|].
+  cbn [map_get]. rewrite seg_get_iter by assumption.
+  destruct (nth_N_some (seg_iter sg) p) as [v Hv]; [apply Hlt; left; reflexivity|].
+  rewrite Hv. rewrite IH by (intros; apply Hlt; right; assumption). cbn [obind].
+  unfold pick. cbn [flat_map]. rewrite Hv. reflexivity.
+Qed.
+
+Lemma seg_range_ok : forall sg, seg_wf sg = true ->
+  exists r, seg_range sg = Ok r /\
+    forall v, In v (seg_iter sg) -> match r with Some (lo, hi) => lo <= v <= hi | None => False end.
+Proof.
+  intros sg Hwf. destruct (list_eq_dec N.eq_dec (seg_iter sg) []) as [E | Hne].
+  - assert (exists r, seg_range sg = Ok r) as [r Hr].
+    { destruct sg as [s e | s e h | s e bm | a | a]; cbn [seg_range].
+      - destruct (e <=? s); eauto.
+      - apply seg_wf_holes in Hwf as [Hse _]. destruct (N.eqb_spec e 0); [lia | eauto].
+      - cbn [seg_wf] in Hwf. repeat (apply andb_true_iff in Hwf as [Hwf ?]). apply N.ltb_lt in Hwf.
+        destruct (N.eqb_spec e 0); [lia | eauto].
+      - cbn [seg_wf] in Hwf. repeat (apply andb_true_iff in Hwf as [Hwf ?]). cbn [seg_iter] in E.
+        rewrite earr_len_iter, E in H. discriminate.
+      - cbn [seg_wf] in Hwf. repeat (apply andb_true_iff in Hwf as [Hwf ?]). cbn [seg_iter] in E.
+        rewrite earr_len_iter, E in H. discriminate. }
+    exists r. split; [assumption|]. rewrite E. intros v [].
+  - destruct (seg_range_contains sg Hwf Hne) as [lo [hi [Hr Hb]]]. exists (Some (lo, hi)). split; assumption.
+Qed.
+
+Lemma index_of_lt : forall v l i, index_of v l = Some i -> i < len_N l.
+Proof.
+  intros v l i H. apply index_of_some_nth in H. unfold nth_N, len_N in *.
+  assert (nth_error l (N.to_nat i) <> None) by congruence. apply nth_error_Some in H0. lia.
+Qed.
+
+Lemma index_of_inj : forall l a b i, index_of a l = Some i -> index_of b l = Some i -> a = b.
+Proof. intros l a b i Ha Hb. apply index_of_some_nth in Ha, Hb. congruence. Qed.
+
+Lemma index_of_In : forall v l, In v l -> exists i, index_of v l = Some i.
+Proof.
+  intros v l H. destruct (index_of v l) eqn:E; [eauto|]. apply index_of_none in E. contradiction.
+Qed.
+
+Lemma NoDup_flat_map_pos : forall (f : N -> list N) R,
+  NoDup R -> (forall r, length (f r) <= 1)%nat -> (forall r1 r2 p, In p (f r1) -> In p (f r2) -> r1 = r2) ->
+  NoDup (flat_map f R).
+Proof.
+  intros f R Hnd H1 Hinj. induction R as [|r R IH]; [constructor|]. inversion Hnd; subst. cbn [flat_map].
+  specialize (H1 r) as H1r. destruct (f r) as [|p [|p' t]] eqn:E; cbn [app length] in *; [apply IH; assumption | | lia].
+  constructor; [|apply IH; assumption]. intro Hin. apply in_flat_map in Hin as [r2 [Hr2 Hp]].
+  assert (r = r2) by (apply (Hinj r r2 p); [rewrite E; left; reflexivity | assumption]). subst. contradiction.
+Qed.
+
+Lemma seg_matches_spec : forall sg R, seg_wf sg = true -> NoDup R ->
+  exists M, seg_matches sg R = Ok M /\ sincr M /\
+    (forall p, In p M <-> exists r, In r R /\ index_of r (seg_iter sg) = Some p).
+Proof.
+  intros sg R Hwf HR. unfold seg_matches. destruct (seg_range_ok sg Hwf) as [rg [Hr Hb]]. rewrite Hr. cbn [obind].
+  set (f := fun id => match rg with
+        | Some (lo, hi) => if (lo <=? id) && (id <=? hi) then match seg_position sg id with Some p => [p] | None => [] end else []
+        | None => [] end).
+  assert (Hf : forall id, f id = opt_list (index_of id (seg_iter sg))).
+  { intro id. unfold f. destruct (index_of id (seg_iter sg)) as [p|] eqn:E.
+    - assert (Hin : In id (seg_iter sg)).
+      { apply index_of_some_nth in E. unfold nth_N in E. eapply nth_error_In; eauto. }
+      specialize (Hb id Hin). destruct rg as [[lo hi]|]; [|destruct Hb].
+      replace ((lo <=? id) && (id <=? hi)) with true by (symmetry; apply andb_true_iff; split; apply N.leb_le; lia).
+      rewrite seg_position_iter by assumption. rewrite E. reflexivity.
+    - destruct rg as [[lo hi]|]; [|reflexivity]. destruct ((lo <=? id) && (id <=? hi)); [|reflexivity].
+      rewrite seg_position_iter by assumption. rewrite E. reflexivity. }
+  eexists. split; [reflexivity|]. split.
+  - apply nsort_NoDup_sincr. apply NoDup_flat_map_pos; [assumption | |].
+    + intro r. rewrite Hf. destruct (index_of r (seg_iter sg)); cbn; lia.
+    + intros r1 r2 p H1 H2. rewrite Hf in H1, H2.
+      destruct (index_of r1 (seg_iter sg)) eqn:E1; cbn [opt_list In] in H1; [|destruct H1].
+      destruct (index_of r2 (seg_iter sg)) eqn:E2; cbn [opt_list In] in H2; [|destruct H2].
+      destruct H1 as [-> | []]. destruct H2 as [-> | []]. eapply index_of_inj; eauto.
+  - intro p. rewrite nsort_In, in_flat_map. split.
+    + intros [r [Hr1 Hr2]]. exists r. split; [assumption|]. rewrite Hf in Hr2.
+      destruct (index_of r (seg_iter sg)); cbn [opt_list In] in Hr2; [|destruct Hr2]. destruct Hr2 as [-> | []]. reflexivity.
+    + intros [r [Hr1 Hr2]]. exists r. split; [assumption|]. rewrite Hf, Hr2. left. reflexivity.
+Qed.
+
+Lemma subseq_app_l : forall a b, subseq a (a ++ b).
+Proof. intros. rewrite <- (app_nil_r a) at 1. apply subseq_app; [apply subseq_refl | apply subseq_nil_l]. Qed.
+Lemma subseq_app_r : forall a b, subseq b (a ++ b).
+Proof. intros. change b with ([] ++ b) at 1. apply subseq_app; [apply subseq_nil_l | apply subseq_refl]. Qed.
+
+Theorem rs_delete_ok : forall q R, rseq_wf q = true -> ids_ok (rs_iter q) -> NoDup R ->
+  exists q', rs_delete q R = Ok q' /\ rseq_wf q' = true
+             /\ rs_iter q' = filter (fun x => negb (memN x R)) (rs_iter q).
+Proof.
+  induction q as [|sg q IH]; intros R Hwf Hok HR; [exists []; repeat split|].
+  apply rseq_wf_cons in Hwf as [H1 H2]. rewrite rs_iter_cons in Hok.
+  assert (Hok1 : ids_ok (seg_iter sg)) by (eapply ids_ok_subseq; [apply subseq_app_l | exact Hok]).
+  assert (Hok2 : ids_ok (rs_iter q)) by (eapply ids_ok_subseq; [apply subseq_app_r | exact Hok]).
+  destruct (IH R H2 Hok2 HR) as [q' [Eq [Hwq Hiq]]].
+  destruct (seg_matches_spec sg R H1 HR) as [M [EM [HMs HMin]]].
+  cbn [rs_delete].
+  assert (EM' : (match R with [] => Ok [] | _ => seg_matches sg R end) = Ok M).
+  { destruct R as [|r0 R']; [|assumption]. f_equal. destruct M as [|p M']; [reflexivity|].
+    exfalso. destruct (proj1 (HMin p) (or_introl eq_refl)) as [r [[] _]]. }
+  rewrite EM'. cbn [obind].
+  assert (Hsg : exists sg', (match M with [] => Ok sg | _ => do ids <- map_get sg M; seg_delete sg ids end) = Ok sg'
+            /\ holds sg' (filter (fun x => negb (memN x R)) (seg_iter sg))).
+  { assert (Hlt : forall p, In p M -> p < len_N (seg_iter sg)).
+    { intros p Hp. apply HMin in Hp as [r [_ Hr]]. eapply index_of_lt; eauto. }
+    assert (Hmem : forall x, In x (seg_iter sg) -> memN x (pick (seg_iter sg) M) = memN x R).
+    { intros x Hx. destruct (memN x R) eqn:E.
+      - apply memN_In. apply memN_In in E. apply pick_In. destruct (index_of_In x _ Hx) as [i Hi].
+        exists i. split; [apply HMin; exists x; split; assumption | apply index_of_some_nth; assumption].
+      - apply memN_false. apply memN_false in E. intro Hin. apply E. apply pick_In in Hin as [p [Hp Hnth]].
+        apply HMin in Hp as [r [Hr1 Hr2]]. apply index_of_some_nth in Hr2. congruence. }
+    destruct M as [|p0 M'] eqn:EMM.
+    - exists sg. split; [reflexivity|]. split; [assumption|].
+      symmetry. rewrite <- (filter_ext_in (fun _ => true)).
+      + clear. induction (seg_iter sg) as [|x l IHl]; [reflexivity | cbn [filter]; f_equal; assumption].
+      + intros x Hx. rewrite <- (Hmem x Hx). reflexivity.
+    - rewrite <- EMM in *. rewrite map_get_pick by assumption. cbn [obind].
+      destruct (seg_delete_ok sg (pick (seg_iter sg) M) H1 Hok1) as [sg' [Ed Hh]]; [apply pick_subseq; assumption|].
+      exists sg'. split; [assumption|]. destruct Hh as [Hw Hi]. split; [assumption|]. rewrite Hi.
+      apply filter_ext_in. intros x Hx. rewrite Hmem by assumption. reflexivity. }
+  destruct Hsg as [sg' [Esg [Hwsg Hisg]]]. rewrite Esg. cbn [obind]. rewrite Eq. cbn [obind].
+  exists (sg' :: q'). split; [reflexivity|]. split; [apply rseq_wf_cons; split; assumption|].
+  rewrite !rs_iter_cons, filter_app, Hisg, Hiq. reflexivity.
+Qed.
+
+(* ------------------------------------------------------------------ *)
+(* mask_to_offset_ranges                                               *)
+(* ------------------------------------------------------------------ *)
+Fixpoint enum_from (b : N) (l : list N) : list (N * N) :=
+  match l with [] => [] | x :: xs => (b, x) :: enum_from (b + 1) xs end.
+
+Definition flat_ranges (rs : list (N * N)) : list N := flat_map (fun r => range_iter (fst r) (snd r)) rs.
+
+Lemma take_split {A} : forall (l : list A) p q, p <= q -> take_N q l = take_N p l ++ take_N (q - p) (skip_N p l).
+Proof.
+  intros l p q H. unfold take_N, skip_N. rewrite <- (firstn_skipn (N.to_nat p) l) at 1.
+  rewrite firstn_app. rewrite firstn_firstn. replace (Init.Nat.min (N.to_nat q) (N.to_nat p)) with (N.to_nat p) by lia.
+  f_equal. rewrite firstn_length.
+  destruct (Nat.le_gt_cases (N.to_nat p) (length l)).
+  - replace (N.to_nat q - Init.Nat.min (N.to_nat p) (length l))%nat with (N.to_nat (q - p)) by lia. reflexivity.
+  - rewrite skipn_all2 by lia. rewrite !firstn_nil. reflexivity.
+Qed.
+
+Lemma skip_skip {A} : forall (l : list A) p n, skip_N n (skip_N p l) = skip_N (p + n) l.
+Proof.
+  intros l p n. unfold skip_N. replace (N.to_nat (p + n)) with (N.to_nat p + N.to_nat n)%nat by lia.
+  generalize (N.to_nat p) as a. generalize (N.to_nat n) as b. intros b a. revert l.
+  induction a as [|a IH]; intro l; [reflexivity|]. destruct l as [|x l]; [cbn [skipn Nat.add]; destruct b; reflexivity|].
+  cbn [skipn Nat.add]. apply IH.
+Qed.
+
+
+Lemma enum_from_app : forall l1 l2 b, enum_from b (l1 ++ l2) = enum_from b l1 ++ enum_from (b + len_N l1) l2.
+Proof.
+  induction l1 as [|x l1 IH]; intros l2 b; cbn [app enum_from].
+  - rewrite len_N_nil. f_equal. lia.
+  - rewrite IH. cbn [app]. do 3 f_equal. rewrite len_N_cons. lia.
+Qed.
+
+Lemma combine_seq_enum : forall l k, combine (map N.of_nat (seq k (length l))) l = enum_from (N.of_nat k) l.
+Proof.
+  induction l as [|x l IH]; intro k; [reflexivity|]. cbn [length seq map combine enum_from]. f_equal.
+  rewrite IH. f_equal. lia.
+Qed.
+
+Lemma group_go_flat : forall l cur, (match cur with Some (s, e) => s <= e | None => True end) ->
+  flat_ranges (group_go cur l) = (match cur with Some (s, e) => range_iter s e | None => [] end) ++ l.
+Proof.
+  induction l as [|id l IH]; intros cur Hc.
+  - destruct cur as [[s e]|]; cbn [group_go flat_ranges flat_map fst snd]; rewrite ?app_nil_r; reflexivity.
+  - assert (Hid : id <= id + 1) by lia.
+    assert (Hone : range_iter id (id + 1) = [id]).
+    { rewrite (range_iter_cons id (id + 1)) by lia. rewrite range_iter_empty by lia. reflexivity. }
+    cbn [group_go]. destruct cur as [[s e]|].
+    + destruct (N.eqb_spec e id) as [-> | Hne].
+      * assert (Hs : s <= id + 1) by lia. rewrite (IH (Some (s, id + 1)) Hs).
+        rewrite range_iter_snoc by assumption. rewrite <- app_assoc. reflexivity.
+      * unfold flat_ranges in *. cbn [flat_map fst snd]. rewrite (IH (Some (id, id + 1)) Hid). rewrite Hone. reflexivity.
+    + rewrite (IH (Some (id, id + 1)) Hid). rewrite Hone. reflexivity.
+Qed.
+
+Lemma group_ranges_flat : forall l, flat_ranges (group_ranges l) = l.
+Proof. intro l. unfold group_ranges. rewrite group_go_flat by exact I. reflexivity. Qed.
+
+Lemma flat_ranges_app : forall a b, flat_ranges (a ++ b) = flat_ranges a ++ flat_ranges b.
+Proof. intros. unfold flat_ranges. apply flat_map_app. Qed.
+
+Lemma filter_lt_split : forall hs a a', a <= a' ->
+  len_N (filter (fun h => h <? a') hs)
+  = len_N (filter (fun h => h <? a) hs) + len_N (filter (fun h => h <? a') (filter (fun h => negb (h <? a)) hs)).
+Proof.
+  intros hs a a' Hle. induction hs as [|h hs IH]; [reflexivity|]. cbn [filter].
+  destruct (N.ltb_spec h a); cbn [negb filter].
+  - replace (h <? a') with true by (symmetry; apply N.ltb_lt; lia). rewrite !len_N_cons. lia.
+  - destruct (h <? a'); rewrite ?len_N_cons; lia.
+Qed.
+
+Lemma holes_offsets_spec : forall addrs hs passed s base, sincr addrs -> sincr hs ->
+  holes_offsets addrs hs passed s base
+  = map (fun a => a - s + base - (passed + len_N (filter (fun h => h <? a) hs))) addrs.
+Proof.
+  induction addrs as [|a addrs IH]; intros hs passed s base Ha Hh; [reflexivity|].
+  cbn [holes_offsets map]. rewrite take_while_lt_sincr, drop_while_lt_sincr by assumption. f_equal.
+  pose proof Ha as Ha0. apply sincr_cons_iff in Ha as [Ha1 Ha2].
+  rewrite IH by (try assumption; apply sincr_filter; assumption).
+  apply map_ext_in. intros a' Ha'. specialize (Ha2 a' Ha'). rewrite (filter_lt_split hs a a') by lia. f_equal. lia.
+Qed.
+
+Lemma remove_count_spec : forall hs all, NoDup hs -> (forall h, In h hs -> In h all) -> remove_count all hs = len_N hs.
+Proof.
+  induction hs as [|h hs IH]; intros all Hnd Hin; [reflexivity|]. inversion Hnd; subst.
+  cbn [remove_count]. replace (memN h all) with true by (symmetry; apply memN_In; apply Hin; left; reflexivity).
+  rewrite IH; [rewrite len_N_cons; reflexivity | assumption |].
+  intros h' Hh'. apply filter_In. split; [apply Hin; right; assumption|].
+  apply negb_true_iff. apply N.eqb_neq. intro; subst. contradiction.
+Qed.
+
+Lemma count_false_app : forall a b, count_false (a ++ b) = count_false a + count_false b.
+Proof. intros. unfold count_false. rewrite filter_app, len_N_app. reflexivity. Qed.
+
+Lemma bitmap_offsets_spec : forall addrs s e bm pos passed base,
+  sincr addrs -> (forall a, In a addrs -> s + pos <= a < e) -> len_N bm = e - s ->
+  passed = count_false (take_N pos bm) ->
+  bitmap_offsets addrs s (skip_N pos bm) pos passed base
+  = Ok (map (fun a => (a - s) + base - count_false (take_N (a - s) bm)) addrs).
+Proof.
+  induction addrs as [|a addrs IH]; intros s e bm pos passed base Hs Hin Hlen Hp; [reflexivity|].
+  cbn [bitmap_offsets map]. pose proof (Hin a (or_introl eq_refl)) as Ha.
+  assert (Hlb : len_N (skip_N pos bm) = e - s - pos).
+  { unfold skip_N, len_N in *. rewrite skipn_length. lia. }
+  replace (len_N (skip_N pos bm) <? a - s - pos) with false by (symmetry; apply N.ltb_ge; lia).
+  rewrite skip_skip. replace (pos + (a - s - pos)) with (a - s) by lia.
+  replace (if pos <? a - s then a - s else pos) with (a - s) by (destruct (N.ltb_spec pos (a - s)); lia).
+  assert (Hcf : passed + count_false (take_N (a - s - pos) (skip_N pos bm)) = count_false (take_N (a - s) bm)).
+  { rewrite (take_split bm pos (a - s)) by lia. rewrite count_false_app. lia. }
+  rewrite Hcf. apply sincr_cons_iff in Hs as [Hs1 Hs2].
+  rewrite (IH s e bm (a - s) (count_false (take_N (a - s) bm)) base); try assumption; try reflexivity.
+  intros a' Ha'. specialize (Hs2 a' Ha'). specialize (Hin a' (or_intror Ha')). lia.
+Qed.
+
+Lemma seg_iter_NoDup : forall sg, seg_wf sg = true -> (seg_is_array sg = false) -> sincr (seg_iter sg).
+Proof.
+  intros [s e | s e h | s e bm | a | a] Hwf Hna; try discriminate; cbn [seg_iter].
+  - apply sincr_range_iter.
+  - apply sincr_filter, sincr_range_iter.
+  - apply sincr_filter, sincr_range_iter.
+  - cbn [seg_wf] in Hwf. repeat (apply andb_true_iff in Hwf as [Hwf ?]). apply strict_sorted_sincr. assumption.
+Qed.
+
+Section M2O.
+  Variable selected : N -> bool.
+
+  (* offsets (starting at base) of the selected ids of l: the specification *)
+  Definition sel_off (base : N) (l : list N) : list N :=
+    map fst (filter (fun p => selected (snd p)) (enum_from base l)).
+
+
+  Lemma sel_off_app : forall l1 l2 b, sel_off b (l1 ++ l2) = sel_off b l1 ++ sel_off (b + len_N l1) l2.
+  Proof. intros. unfold sel_off. rewrite enum_from_app, filter_app, map_app. reflexivity. Qed.
+
+
+  Lemma sel_off_shift : forall l b off,
+    map (fun p => fst p + off) (filter (fun p => selected (snd p)) (enum_from b l)) = sel_off (b + off) l.
+  Proof.
+    induction l as [|x l IH]; intros b off; [reflexivity|]. unfold sel_off in *. cbn [enum_from filter snd].
+    destruct (selected x); cbn [map fst]; rewrite IH; [f_equal|]; do 3 f_equal; lia.
+  Qed.
+
+  Lemma sel_off_index : forall l base, NoDup l ->
+    map (fun a => base + or0 (index_of a l)) (filter selected l) = sel_off base l.
+  Proof.
+    induction l as [|x l IH]; intros base Hnd; [reflexivity|]. inversion Hnd; subst.
+    unfold sel_off in *. cbn [enum_from filter snd].
+    assert (Htail : map (fun a => base + or0 (index_of a (x :: l))) (filter selected l)
+                    = map fst (filter (fun p => selected (snd p)) (enum_from (base + 1) l))).
+    { rewrite <- IH by assumption. apply map_ext_in. intros a Ha. apply filter_In in Ha as [Ha _].
+      rewrite index_of_cons. destruct (N.eqb_spec a x); [subst; contradiction|].
+      destruct (index_of_In a l Ha) as [i Hi]. rewrite Hi. cbn [or0]. lia. }
+    destruct (selected x); cbn [map fst]; [|assumption].
+    rewrite index_of_cons, N.eqb_refl. cbn [or0]. f_equal; [lia | assumption].
+  Qed.
+
+
+
+
+  (* Range arm *)
+  Lemma range_arm : forall n s' b,
+    map (fun a => a - s' + b) (filter selected (nrange s' n)) = sel_off b (nrange s' n).
+  Proof.
+    induction n as [|n IH]; intros s' b; [reflexivity|]. unfold sel_off in *. cbn [nrange enum_from filter snd].
+    assert (Htail : map (fun a => a - s' + b) (filter selected (nrange (s' + 1) n))
+                    = map fst (filter (fun p => selected (snd p)) (enum_from (b + 1) (nrange (s' + 1) n)))).
+    { rewrite <- IH. apply map_ext_in. intros a Ha. apply filter_In in Ha as [Ha _]. apply nrange_In in Ha. lia. }
+    destruct (selected s'); cbn [map fst]; [f_equal; [lia | assumption] | assumption].
+  Qed.
+
+  (* RangeWithHoles arm *)
+
+
+
+  (* RangeWithBitmap arm *)
+
+
+
+  (* one segment: the ranges it contributes and the offset after it *)
+  Lemma m2o_segment : forall sg rest offset, seg_wf sg = true -> NoDup (seg_iter sg) ->
+    exists ranges, m2o_go selected (sg :: rest) offset
+                   = (do r <- m2o_go selected rest (offset + len_N (seg_iter sg)); Ok (ranges ++ r))
+                   /\ flat_ranges ranges = sel_off offset (seg_iter sg).
+  Proof.
+    intros sg rest offset Hwf Hnd. pose proof (seg_len_iter sg Hwf) as Hlen.
+    destruct sg as [s e | s e h | s e bm | a | a]; cbn [m2o_go].
+    - cbn [seg_wf] in Hwf. apply andb_true_iff in Hwf as [Hse _]. apply N.leb_le in Hse.
+      eexists. cbn [obind]. cbn [seg_iter seg_len] in *. rewrite range_iter_len. split; [reflexivity|].
+      rewrite group_ranges_flat. apply range_arm.
+    - pose proof Hwf as Hwf0. apply seg_wf_holes in Hwf as [Hse [He [Hw [Hs Hin]]]].
+      rewrite nsort_sincr by assumption.
+      assert (Hrem : remove_count (range_iter s e) (earr_iter h) = len_N (earr_iter h)).
+      { apply remove_count_spec; [apply sincr_NoDup; assumption|]. intros x Hx. apply range_iter_In. apply Hin. assumption. }
+      rewrite Hrem. cbn [seg_len] in Hlen.
+      assert (Hsum : len_N (seg_iter (SHoles s e h)) + len_N (earr_iter h) = e - s).
+      { rewrite holes_iter by assumption.
+        pose proof (filter_len_split (fun v => memN v (earr_iter h)) (range_iter s e)) as Hsp. rewrite range_iter_len in Hsp.
+        rewrite (holes_count s e (earr_iter h) e Hs Hin) in Hsp by lia.
+        replace (filter (fun x => x <? e) (earr_iter h)) with (earr_iter h) in Hsp; [lia|].
+        symmetry. rewrite <- (filter_ext_in (fun _ => true)); [clear; induction (earr_iter h) as [|x l IH]; [reflexivity | cbn [filter]; f_equal; assumption]|].
+        intros x Hx. specialize (Hin x Hx). symmetry. apply N.ltb_lt. lia. }
+      eexists. cbn [obind]. replace (offset + (e - s) - len_N (earr_iter h)) with (offset + len_N (seg_iter (SHoles s e h))) by lia.
+      split; [reflexivity|]. rewrite group_ranges_flat.
+      rewrite <- holes_iter by assumption.
+      rewrite holes_offsets_spec; [| apply sincr_filter; apply seg_iter_NoDup; [assumption | reflexivity] | assumption].
+      rewrite <- (sel_off_index (seg_iter (SHoles s e h)) offset Hnd).
+      apply map_ext_in. intros a Ha. apply filter_In in Ha as [Ha _].
+      rewrite <- seg_position_iter by assumption. cbn [seg_position].
+      assert (Har : s <= a < e).
+      { rewrite holes_iter in Ha by assumption. apply filter_In in Ha as [Ha _]. apply range_iter_In in Ha. assumption. }
+      assert (Hnh : memN a (earr_iter h) = false).
+      { rewrite holes_iter in Ha by assumption. apply filter_In in Ha as [_ Ha]. apply negb_true_iff in Ha. assumption. }
+      unfold in_range. replace ((s <=? a) && (a <? e)) with true by (symmetry; apply andb_true_iff; split; [apply N.leb_le | apply N.ltb_lt]; lia).
+      rewrite earr_bsearch_iter by assumption. rewrite index_of_is_some, Hnh. cbn [andb negb or0].
+      rewrite take_while_lt_sincr by assumption.
+      assert (Hk : len_N (filter (fun hole => hole <? a) (earr_iter h)) <= a - s).
+      { rewrite <- (holes_count s e (earr_iter h) a Hs Hin) by lia.
+        etransitivity; [apply filter_len_le|]. rewrite range_iter_len. lia. }
+      lia.
+    - pose proof Hwf as Hwf0. cbn [seg_wf] in Hwf. repeat (apply andb_true_iff in Hwf as [Hwf ?]).
+      apply N.ltb_lt in Hwf. apply N.eqb_eq in H. rename H into Hbl.
+      cbn [seg_len seg_iter] in *.
+      assert (Hbo := bitmap_offsets_spec (filter selected (filter (fun v => bm_get bm (v - s)) (range_iter s e))) s e bm 0 0 offset).
+      change (skip_N 0 bm) with bm in Hbo. rewrite Hbo; try assumption; try reflexivity.
+      2:{ apply sincr_filter, sincr_filter, sincr_range_iter. }
+      2:{ intros a Ha. apply filter_In in Ha as [Ha _]. apply filter_In in Ha as [Ha _]. apply range_iter_In in Ha. lia. }
+      clear Hbo.
+      cbn [obind]. eexists.
+      replace (offset + (e - s) - (len_N (range_iter s e) - len_N (filter (fun v => bm_get bm (v - s)) (range_iter s e))))
+        with (offset + len_N (filter (fun v => bm_get bm (v - s)) (range_iter s e))).
+      2:{ rewrite range_iter_len. pose proof (filter_len_le (fun v => bm_get bm (v - s)) (range_iter s e)). rewrite range_iter_len in H. lia. }
+      split; [reflexivity|]. rewrite group_ranges_flat.
+      rewrite <- (sel_off_index _ offset Hnd).
+      apply map_ext_in. intros a Ha. apply filter_In in Ha as [Ha _].
+      pose proof (seg_position_iter (SBitmap s e bm) a Hwf0) as Hpos. cbn [seg_position seg_iter] in Hpos. rewrite <- Hpos.
+      apply filter_In in Ha as [Ha1 Ha2]. apply range_iter_In in Ha1.
+      unfold in_range. replace ((s <=? a) && (a <? e)) with true by (symmetry; apply andb_true_iff; split; [apply N.leb_le | apply N.ltb_lt]; lia).
+      rewrite Ha2. cbn [andb or0].
+      assert (Hk : count_false (take_N (a - s) bm) <= a - s).
+      { unfold count_false. etransitivity; [apply filter_len_le|]. unfold take_N, len_N. rewrite firstn_length. lia. }
+      lia.
+    - eexists. cbn [obind]. cbn [seg_iter seg_len] in *. rewrite earr_len_iter. split; [reflexivity|].
+      rewrite group_ranges_flat. rewrite combine_seq_enum. rewrite sel_off_shift. reflexivity.
+    - eexists. cbn [obind]. cbn [seg_iter seg_len] in *. rewrite earr_len_iter. split; [reflexivity|].
+      rewrite group_ranges_flat. rewrite combine_seq_enum. rewrite sel_off_shift. reflexivity.
+  Qed.
+
+  Theorem m2o_go_ok : forall q offset, rseq_wf q = true -> (forall sg, In sg q -> NoDup (seg_iter sg)) ->
+    exists rs, m2o_go selected q offset = Ok rs /\ flat_ranges rs = sel_off offset (rs_iter q).
+  Proof.
+    induction q as [|sg q IH]; intros offset Hwf Hnd; [exists []; split; reflexivity|].
+    apply rseq_wf_cons in Hwf as [H1 H2].
+    destruct (m2o_segment sg q offset H1 (Hnd sg (or_introl eq_refl))) as [ranges [E Hf]].
+    destruct (IH (offset + len_N (seg_iter sg)) H2) as [rs [Ers Hrs]]; [intros; apply Hnd; right; assumption|].
+    exists (ranges ++ rs). rewrite E, Ers. cbn [obind]. split; [reflexivity|].
+    rewrite flat_ranges_app, Hf, Hrs, rs_iter_cons, sel_off_app. reflexivity.
+  Qed.
+End M2O.
+
+Theorem rs_mask_to_offset_ranges_ok : forall selected q, rseq_wf q = true -> NoDup (rs_iter q) ->
+  exists rs, rs_mask_to_offset_ranges selected q = Ok rs /\ flat_ranges rs = sel_off selected 0 (rs_iter q).
+Proof.
+  intros selected q Hwf Hnd. apply m2o_go_ok; [assumption|].
+  intros sg Hin. apply in_split in Hin as [q1 [q2 ->]]. rewrite rs_iter_app, rs_iter_cons in Hnd.
+  eapply subseq_NoDup; [|exact Hnd]. eapply subseq_trans; [apply subseq_app_l | apply subseq_app_r].
+Qed.
+
+(* ------------------------------------------------------------------ *)
+(* rechunk_sequences                                                   *)
+(* ------------------------------------------------------------------ *)
+(* the ids not yet handed out: the rest of the first segment, then the other segments *)
+Definition remaining_ids (segs : rseq) (so : N) : list N :=
+  match segs with [] => [] | sg :: rest => skip_N so (seg_iter sg) ++ rs_iter rest end.
+
+Lemma skip_N_len {A} : forall (l : list A) n, len_N (skip_N n l) = len_N l - n.
+Proof. intros. unfold skip_N, len_N. rewrite skipn_length. lia. Qed.
+
+Lemma take_N_len {A} : forall (l : list A) n, n <= len_N l -> len_N (take_N n l) = n.
+Proof. intros. unfold take_N, len_N in *. rewrite firstn_length. lia. Qed.
+
+Lemma skip_N_all {A} : forall (l : list A) n, len_N l <= n -> skip_N n l = [].
+Proof. intros. unfold skip_N, len_N in *. apply skipn_all2. lia. Qed.
+
+Lemma take_skip_app {A} : forall (l : list A) a b, skip_N a l = take_N b (skip_N a l) ++ skip_N (a + b) l.
+Proof.
+  intros l a b. rewrite <- (skip_skip l a b). unfold take_N. unfold skip_N at 2 4.
+  symmetry. exact (firstn_skipn (N.to_nat b) (skip_N a l)).
+Qed.
+
+Lemma take_N_all {A} : forall (l : list A) n, len_N l <= n -> take_N n l = l.
+Proof. intros. unfold take_N, len_N in *. apply firstn_all2. lia. Qed.
+
+Ltac splits := repeat match goal with |- _ /\ _ => split end.
+
+Lemma rechunk_fill_spec : forall segs so remaining acc allow,
+  rseq_wf segs = true -> rseq_wf acc = true -> ids_ok (rs_iter segs) ->
+  so <= match segs with [] => 0 | sg :: _ => len_N (seg_iter sg) end ->
+  forall chunk segs' so', rechunk_fill segs so remaining acc allow = Ok (chunk, segs', so') ->
+  exists taken,
+    rs_iter chunk = rs_iter acc ++ taken
+    /\ remaining_ids segs so = taken ++ remaining_ids segs' so'
+    /\ (len_N taken = remaining \/ (allow = true /\ segs' = [] /\ len_N taken <= remaining))
+    /\ rseq_wf chunk = true /\ rseq_wf segs' = true /\ ids_ok (rs_iter segs')
+    /\ so' <= match segs' with [] => 0 | sg :: _ => len_N (seg_iter sg) end.
+Proof.
+  induction segs as [|sg rest IH]; intros so remaining acc allow Hwf Hacc Hok Hso chunk segs' so' E.
+  - cbn [rechunk_fill] in E. destruct (N.eqb_spec remaining 0) as [-> | Hr].
+    + inversion E; subst. exists []. rewrite app_nil_r. splits; try assumption; try reflexivity. left. reflexivity.
+    + destruct allow; [|discriminate]. inversion E; subst. exists []. rewrite app_nil_r.
+      splits; try assumption; try reflexivity. right. repeat split. rewrite len_N_nil. lia.
+  - cbn [rechunk_fill] in E. destruct (N.eqb_spec remaining 0) as [-> | Hr].
+    + inversion E; subst. exists []. rewrite app_nil_r. splits; try assumption; try reflexivity. left. reflexivity.
+    + pose proof Hwf as Hwf0. apply rseq_wf_cons in Hwf as [H1 H2].
+      rewrite seg_len_iter in E by assumption. unfold csub in E.
+      replace (so <=? len_N (seg_iter sg)) with true in E by (symmetry; apply N.leb_le; assumption). cbn [obind] in E.
+      rewrite rs_iter_cons in Hok.
+      assert (Hok1 : ids_ok (seg_iter sg)) by (eapply ids_ok_subseq; [apply subseq_app_l | exact Hok]).
+      assert (Hok2 : ids_ok (rs_iter rest)) by (eapply ids_ok_subseq; [apply subseq_app_r | exact Hok]).
+      destruct (N.eqb_spec (len_N (seg_iter sg) - so) 0) as [E0 | E0].
+      * (* nothing left in this segment: skip it *)
+        destruct (IH 0 remaining acc allow H2 Hacc Hok2 ltac:(destruct rest; lia) chunk segs' so' E)
+          as [taken [Hc [Hrem [Hlen [Hwc [Hws [Hoks Hso']]]]]]].
+        exists taken. splits; try assumption.
+        cbn [remaining_ids]. rewrite skip_N_all by lia. cbn [app]. rewrite <- Hrem.
+        destruct rest; [reflexivity|]. cbn [remaining_ids]. reflexivity.
+      * destruct (N.ltb_spec remaining (len_N (seg_iter sg) - so)) as [Hlt | Hge].
+        -- (* the segment is larger than what is needed: slice it, stay on it *)
+           destruct (seg_slice_ok sg so remaining H1 Hok1) as [piece [Ep [Hwp Hip]]]. rewrite Ep in E. cbn [obind] in E.
+           inversion E; subst.
+           destruct (rs_extend_ok acc [piece] Hacc) as [Hwe Hie]; [apply rseq_wf_cons; split; [assumption | reflexivity]|].
+           exists (take_N remaining (skip_N so (seg_iter sg))). split.
+           { rewrite Hie. cbn [rs_iter flat_map]. rewrite app_nil_r, Hip. reflexivity. }
+           split.
+           { cbn [remaining_ids]. rewrite app_assoc. f_equal. apply take_skip_app. }
+           split; [left; apply take_N_len; rewrite skip_N_len; lia|].
+           splits; try assumption; try (rewrite rs_iter_cons; assumption). lia.
+        -- (* the whole rest of the segment goes into the chunk *)
+           destruct (seg_slice_ok sg so (len_N (seg_iter sg) - so) H1 Hok1) as [piece [Ep [Hwp Hip]]]. rewrite Ep in E. cbn [obind] in E.
+           destruct (rs_extend_ok acc [piece] Hacc) as [Hwe Hie]; [apply rseq_wf_cons; split; [assumption | reflexivity]|].
+           destruct (IH 0 (remaining - (len_N (seg_iter sg) - so)) (rs_extend acc [piece]) allow H2 Hwe Hok2 ltac:(destruct rest; lia) chunk segs' so' E)
+             as [taken [Hc [Hrem [Hlen [Hwc [Hws [Hoks Hso']]]]]]].
+           assert (Hpiece : seg_iter piece = skip_N so (seg_iter sg)).
+           { rewrite Hip. apply take_N_all. rewrite skip_N_len. lia. }
+           exists (skip_N so (seg_iter sg) ++ taken). split.
+           { rewrite Hc, Hie. cbn [rs_iter flat_map]. rewrite app_nil_r, Hpiece, <- app_assoc. reflexivity. }
+           split.
+           { cbn [remaining_ids]. rewrite <- app_assoc. f_equal. rewrite <- Hrem.
+             destruct rest; [reflexivity|]. cbn [remaining_ids]. reflexivity. }
+           split.
+           { rewrite len_N_app, skip_N_len. destruct Hlen as [Hl | [Ha [Hs Hl]]]; [left; lia | right; splits; try assumption; lia]. }
+           splits; assumption.
+Qed.
+
+Definition chunk_len_ok (allow : bool) (chunk : rseq) (size : N) : Prop :=
+  if allow then len_N (rs_iter chunk) <= size else len_N (rs_iter chunk) = size.
+
+Lemma rechunk_go_spec : forall sizes segs so allow chunks,
+  rseq_wf segs = true -> ids_ok (rs_iter segs) ->
+  so <= match segs with [] => 0 | sg :: _ => len_N (seg_iter sg) end ->
+  rechunk_go segs so sizes allow = Ok chunks ->
+  concat (map rs_iter chunks) = remaining_ids segs so
+  /\ Forall2 (chunk_len_ok allow) chunks sizes
+  /\ Forall (fun c => rseq_wf c = true) chunks.
+Proof.
+  induction sizes as [|c sizes IH]; intros segs so allow chunks Hwf Hok Hso E.
+  - cbn [rechunk_go] in E. destruct segs; [|discriminate]. inversion E; subst. repeat split; constructor.
+  - cbn [rechunk_go] in E.
+    destruct (rechunk_fill segs so c [] allow) as [[[chunk segs'] so']| |] eqn:Ef; try discriminate. cbn [obind] in E.
+    destruct (rechunk_go segs' so' sizes allow) as [more| |] eqn:Eg; try discriminate. cbn [obind] in E. inversion E; subst.
+    destruct (rechunk_fill_spec segs so c [] allow Hwf eq_refl Hok Hso chunk segs' so' Ef)
+      as [taken [Hc [Hrem [Hlen [Hwc [Hws [Hoks Hso']]]]]]].
+    destruct (IH segs' so' allow more Hws Hoks Hso' Eg) as [Hcat [Hf2 Hfw]].
+    cbn [map concat]. rewrite Hcat, Hc, Hrem. cbn [rs_iter flat_map app]. split; [reflexivity|]. split.
+    + constructor; [|assumption]. unfold chunk_len_ok. rewrite Hc. cbn [rs_iter flat_map app].
+      destruct Hlen as [Hl | [Ha [_ Hl]]]; [destruct allow; lia | subst allow; assumption].
+    + constructor; assumption.
+Qed.
+
+Lemma rs_iter_concat : forall seqs, rs_iter (concat seqs) = concat (map rs_iter seqs).
+Proof. induction seqs as [|q seqs IH]; [reflexivity|]. cbn [concat map]. rewrite rs_iter_app, IH. reflexivity. Qed.
+
+Theorem rechunk_sequences_ok : forall seqs sizes allow chunks,
+  Forall (fun q => rseq_wf q = true) seqs -> ids_ok (concat (map rs_iter seqs)) ->
+  rechunk_sequences seqs sizes allow = Ok chunks ->
+  concat (map rs_iter chunks) = concat (map rs_iter seqs)
+  /\ Forall2 (chunk_len_ok allow) chunks sizes
+  /\ Forall (fun c => rseq_wf c = true) chunks.
+Proof.
+  intros seqs sizes allow chunks Hwf Hok E. unfold rechunk_sequences in E.
+  assert (Hwc : rseq_wf (concat seqs) = true).
+  { clear -Hwf. induction seqs as [|q seqs IH]; [reflexivity|]. inversion Hwf; subst. cbn [concat]. apply rseq_wf_app. split; [assumption | apply IH; assumption]. }
+  rewrite <- rs_iter_concat in Hok.
+  destruct (rechunk_go_spec sizes (concat seqs) 0 allow chunks Hwc Hok ltac:(destruct (concat seqs); lia) E) as [Hcat [Hf2 Hfw]].
+  split; [|split; assumption]. rewrite Hcat, <- rs_iter_concat.
+  destruct (concat seqs) as [|sg rest]; [reflexivity|]. cbn [remaining_ids]. reflexivity.
+Qed.
+
+(* ------------------------------------------------------------------ *)
+(* U64Segment::mask / RowIdSequence::mask                               *)
+(* ------------------------------------------------------------------ *)
+(* elements of l (enumerated from i) whose position is not in ps: the specification of mask *)
+Definition remove_at (i : N) (ps : list N) (l : list N) : list N :=
+  map snd (filter (fun p => negb (memN (fst p) ps)) (enum_from i l)).
+
+Lemma drop_positions_spec : forall l i ps, sincr ps -> (forall p, In p ps -> i <= p) ->
+  drop_positions l i ps = remove_at i ps l.
+Proof.
+  induction l as [|x l IH]; intros i ps Hs Hge; [reflexivity|].
+  unfold remove_at in *. cbn [drop_positions enum_from filter fst].
+  destruct ps as [|p ps'].
+  - cbn [memN existsb negb map snd]. f_equal. apply (IH (i + 1) [] sincr_nil). intros q [].
+  - pose proof Hs as Hs0. apply sincr_cons_iff in Hs as [Hs1 Hs2].
+    destruct (N.eqb_spec p i) as [-> | Hne].
+    + replace (memN i (i :: ps')) with true by (symmetry; apply memN_In; left; reflexivity). cbn [negb].
+      rewrite IH; [| assumption | intros q Hq; specialize (Hs2 q Hq); lia].
+      f_equal. apply filter_ext_in. intros [j y] Hj. cbn [fst]. f_equal. unfold memN. cbn [existsb].
+      destruct (N.eqb_spec j i); [|reflexivity]. subst j. exfalso.
+      assert (Hfst : forall l b q, In q (enum_from b l) -> b <= fst q).
+      { clear. induction l as [|z l IHl]; intros b q Hq; [destruct Hq|]. cbn [enum_from] in Hq.
+        destruct Hq as [<- | Hq]; [cbn; lia | specialize (IHl (b + 1) q Hq); lia]. }
+      specialize (Hfst l (i + 1) (i, y) Hj). cbn [fst] in Hfst. lia.
+    + assert (Hip : i < p) by (specialize (Hge p (or_introl eq_refl)); lia).
+      assert (Hm : memN i (p :: ps') = false).
+      { apply memN_false. intros [E | Hin]; [lia | specialize (Hs2 i Hin); lia]. }
+      rewrite Hm. cbn [negb map snd]. f_equal. apply IH; [assumption|].
+      intros q [<- | Hq]; [lia | specialize (Hs2 q Hq); lia].
+Qed.
+
+Lemma enum_from_fst : forall l b, map fst (enum_from b l) = nrange b (length l).
+Proof. induction l as [|x l IH]; intro b; [reflexivity|]. cbn [enum_from map fst length nrange]. f_equal. apply IH. Qed.
+
+Lemma enum_from_snd : forall l b, map snd (enum_from b l) = l.
+Proof. induction l as [|x l IH]; intro b; [reflexivity|]. cbn [enum_from map snd]. f_equal. apply IH. Qed.
+
+Lemma enum_from_In : forall l b j y, In (j, y) (enum_from b l) <-> (b <= j /\ nth_N l (j - b) = Some y).
+Proof.
+  induction l as [|x l IH]; intros b j y.
+  - cbn. split; [intros [] | intros [_ H]; unfold nth_N in H; destruct (N.to_nat (j - b)); discriminate].
+  - cbn [enum_from In]. rewrite IH. split.
+    + intros [H | [H1 H2]].
+      * inversion H; subst. split; [lia|]. replace (j - j) with 0 by lia. reflexivity.
+      * split; [lia|]. rewrite nth_N_pos by lia. replace (j - b - 1) with (j - (b + 1)) by lia. assumption.
+    + intros [H1 H2]. destruct (N.eqb_spec j b) as [-> | Hne].
+      * left. replace (b - b) with 0 in H2 by lia. rewrite nth_N_0 in H2. inversion H2. reflexivity.
+      * right. split; [lia|]. rewrite nth_N_pos in H2 by lia. replace (j - b - 1) with (j - (b + 1)) in H2 by lia. assumption.
+Qed.
+
+Lemma remove_at_subseq : forall l i ps, subseq (remove_at i ps l) l.
+Proof.
+  induction l as [|x l IH]; intros i ps; [constructor|]. unfold remove_at in *. cbn [enum_from filter fst].
+  destruct (negb (memN i ps)); cbn [map snd]; constructor; apply IH.
+Qed.
+
+Lemma remove_at_In : forall l ps y, In y (remove_at 0 ps l) <-> exists j, nth_N l j = Some y /\ ~ In j ps.
+Proof.
+  intros l ps y. unfold remove_at. rewrite in_map_iff. split.
+  - intros [[j y'] [E Hin]]. cbn [snd] in E. subst y'. apply filter_In in Hin as [H1 H2]. cbn [fst] in H2.
+    apply enum_from_In in H1 as [_ H1]. replace (j - 0) with j in H1 by lia. exists j. split; [assumption|].
+    apply memN_false. apply negb_true_iff. assumption.
+  - intros [j [H1 H2]]. exists (j, y). split; [reflexivity|]. apply filter_In. split.
+    + apply enum_from_In. split; [lia|]. replace (j - 0) with j by lia. assumption.
+    + cbn [fst]. apply negb_true_iff. apply memN_false. assumption.
+Qed.
+
+Lemma remove_at_len : forall l ps, sincr ps -> (forall p, In p ps -> p < len_N l) ->
+  len_N (remove_at 0 ps l) + len_N ps = len_N l.
+Proof.
+  intros l ps Hs Hlt. unfold remove_at. unfold len_N at 1. rewrite map_length. fold (len_N (filter (fun p => negb (memN (fst p) ps)) (enum_from 0 l))).
+  pose proof (filter_len_split (fun p : N * N => memN (fst p) ps) (enum_from 0 l)) as Hsp.
+  assert (Hin : len_N (filter (fun p : N * N => memN (fst p) ps) (enum_from 0 l)) = len_N ps).
+  { rewrite (filter_map_len (fun j => memN j ps) fst). rewrite enum_from_fst.
+    f_equal. change (nrange 0 (length l)) with (range_iter 0 (0 + N.of_nat (length l))) || idtac.
+    replace (nrange 0 (length l)) with (range_iter 0 (len_N l)) by (unfold range_iter, len_N; f_equal; lia).
+    apply sincr_filter_range; [assumption|]. intros v Hv. specialize (Hlt v Hv). lia. }
+  assert (Hl : len_N (enum_from 0 l) = len_N l).
+  { unfold len_N. rewrite <- (map_length fst), enum_from_fst, nrange_length. reflexivity. }
+  lia.
+Qed.
+
+(* the identity prefix of a position list *)
+Fixpoint idpref (b : N) (ps : list N) : nat :=
+  match ps with p :: r => if p =? b then S (idpref (b + 1) r) else O | [] => O end.
+
+Lemma idpref_spec : forall ps b, sincr ps -> (forall p, In p ps -> b <= p) ->
+  (idpref b ps <= length ps)%nat
+  /\ (forall t, (t < idpref b ps)%nat -> nth t ps 0 = b + N.of_nat t)
+  /\ ((idpref b ps < length ps)%nat -> b + N.of_nat (idpref b ps) < nth (idpref b ps) ps 0)
+  /\ ~ In (b + N.of_nat (idpref b ps)) ps
+  /\ (forall i, b <= i < b + N.of_nat (idpref b ps) -> In i ps).
+Proof.
+  induction ps as [|p ps IH]; intros b Hs Hge.
+  - cbn [idpref length]. repeat split; try lia; try (intros; lia). intros [].
+  - pose proof Hs as Hs0. apply sincr_cons_iff in Hs as [Hs1 Hs2]. cbn [idpref].
+    destruct (N.eqb_spec p b) as [-> | Hne].
+    + destruct (IH (b + 1) Hs1) as [H1 [H2 [H3 [H4 H5]]]]; [intros q Hq; specialize (Hs2 q Hq); lia|].
+      cbn [length]. split; [lia|]. split; [|split; [|split]].
+      * intros [|t] Ht; cbn [nth]; [lia|]. rewrite H2 by lia. lia.
+      * intro Hlt. cbn [nth]. specialize (H3 ltac:(lia)). lia.
+      * intros [E | Hin]; [lia|]. apply H4. replace (b + 1 + N.of_nat (idpref (b + 1) ps)) with (b + N.of_nat (S (idpref (b + 1) ps))) by lia. assumption.
+      * intros i Hi. destruct (N.eqb_spec i b) as [-> | Hib]; [left; reflexivity|]. right. apply H5. lia.
+    + assert (b < p) by (specialize (Hge p (or_introl eq_refl)); lia).
+      cbn [length]. split; [lia|]. split; [intros t Ht; lia|]. split; [intros _; cbn [nth]; lia|]. split.
+      * replace (b + N.of_nat 0) with b by lia. intros [E | Hin]; [lia | specialize (Hs2 b Hin); lia].
+      * intros i Hi. lia.
+Qed.
+
+Lemma find_seq_first : forall (p : nat -> bool) n a j, (a <= j < a + n)%nat -> p j = true ->
+  (forall i, (a <= i < j)%nat -> p i = false) -> find p (seq a n) = Some j.
+Proof.
+  intros p n. induction n as [|n IH]; intros a j Hj Hp Hnot; [lia|].
+  cbn [seq find]. destruct (Nat.eq_dec a j) as [-> | Hne]; [rewrite Hp; reflexivity|].
+  rewrite (Hnot a) by lia. apply IH; [lia | assumption | intros; apply Hnot; lia].
+Qed.
+
+Lemma first_unmasked_spec : forall len ps, sincr ps -> (forall p, In p ps -> p < len) ->
+  ps <> [] -> len_N ps < len ->
+  exists m, first_unmasked len ps = Some m /\ m < len /\ ~ In m ps /\ (forall i, i < m -> In i ps).
+Proof.
+  intros len ps Hs Hlt Hne Hk. unfold first_unmasked.
+  destruct (idpref_spec ps 0 Hs ltac:(intros; lia)) as [H1 [H2 [H3 [H4 H5]]]].
+  set (m := idpref 0 ps) in *. set (k := length ps) in *.
+  assert (Hk0 : (0 < k)%nat) by (unfold k; destruct ps; [congruence | cbn [length]; lia]).
+  assert (Hkl : (k < N.to_nat len)%nat) by (unfold len_N in Hk; fold k in Hk; lia).
+  rewrite (find_seq_first _ (N.to_nat len) 0%nat m).
+  - exists (N.of_nat m). split; [reflexivity|]. split; [lia|]. split.
+    + replace (0 + N.of_nat m) with (N.of_nat m) in H4 by lia. assumption.
+    + intros i Hi. apply H5. lia.
+  - lia.
+  - apply negb_true_iff. apply N.eqb_neq. destruct (Nat.eq_dec m k) as [E | E].
+    + rewrite E. rewrite Nat.mod_same by lia. rewrite H2 by lia. lia.
+    + rewrite Nat.mod_small by lia. specialize (H3 ltac:(lia)). lia.
+  - intros i Hi. apply negb_false_iff. apply N.eqb_eq. rewrite Nat.mod_small by lia. rewrite H2 by lia. lia.
+Qed.
+
+(* mirror image of a position list *)
+Definition mirror (len : N) (ps : list N) : list N := map (fun p => len - 1 - p) (rev ps).
+
+Lemma sincr_rev_map : forall len ps, sincr ps -> (forall p, In p ps -> p < len) -> sincr (mirror len ps).
+Proof.
+  intros len ps. unfold mirror. induction ps as [|p ps IH]; intros Hs Hlt; [constructor|].
+  apply sincr_cons_iff in Hs as [Hs1 Hs2]. cbn [rev]. rewrite map_app. cbn [map].
+  apply sincr_app; [apply IH; [assumption | intros; apply Hlt; right; assumption] | constructor |].
+  intros a b Ha [<- | []]. apply in_map_iff in Ha as [q [<- Hq]]. apply in_rev in Hq.
+  specialize (Hs2 q Hq). specialize (Hlt q (or_intror Hq)). lia.
+Qed.
+
+Lemma mirror_In : forall len ps i, i < len -> (forall p, In p ps -> p < len) ->
+  (In i (mirror len ps) <-> In (len - 1 - i) ps).
+Proof.
+  intros len ps i Hi Hlt. unfold mirror. rewrite in_map_iff. split.
+  - intros [q [E Hq]]. apply in_rev in Hq. specialize (Hlt q Hq). replace (len - 1 - i) with q by lia. assumption.
+  - intro H. exists (len - 1 - i). split; [lia | apply (proj1 (in_rev ps (len - 1 - i))); assumption].
+Qed.
+
+Lemma last_unmasked_spec : forall len ps, sincr ps -> (forall p, In p ps -> p < len) ->
+  ps <> [] -> len_N ps < len ->
+  exists m, last_unmasked len ps = Some m /\ m < len /\ ~ In m ps /\ (forall i, m < i < len -> In i ps).
+Proof.
+  intros len ps Hs Hlt Hne Hk.
+  assert (Hms : sincr (mirror len ps)) by (apply sincr_rev_map; assumption).
+  assert (Hmlt : forall p, In p (mirror len ps) -> p < len).
+  { intros p Hp. unfold mirror in Hp. apply in_map_iff in Hp as [q [<- Hq]]. lia. }
+  assert (Hmne : mirror len ps <> []).
+  { unfold mirror. destruct ps; [congruence|]. cbn [rev]. rewrite map_app. intro E. apply app_eq_nil in E as [_ E]. discriminate. }
+  assert (Hmk : len_N (mirror len ps) < len).
+  { unfold mirror, len_N in *. rewrite map_length, rev_length. assumption. }
+  destruct (first_unmasked_spec len (mirror len ps) Hms Hmlt Hmne Hmk) as [m [Em [Hm1 [Hm2 Hm3]]]].
+  exists (len - 1 - m). split.
+  - unfold last_unmasked, first_unmasked in *.
+    assert (Hlen : length (mirror len ps) = length ps) by (unfold mirror; rewrite map_length, rev_length; reflexivity).
+    rewrite Hlen in Em.
+    replace (find (fun t => negb (nth (t mod length ps) (rev ps) 0 =? len - 1 - N.of_nat t)) (seq 0 (N.to_nat len)))
+      with (find (fun j => negb (nth (j mod length ps) (mirror len ps) 0 =? N.of_nat j)) (seq 0 (N.to_nat len))).
+    + destruct (find _ _) as [j|]; [|discriminate]. inversion Em; subst. reflexivity.
+    + assert (Hfe : forall (p q : nat -> bool) l, (forall x, In x l -> p x = q x) -> find p l = find q l).
+      { clear. intros p q l. induction l as [|x l IH]; intro H; [reflexivity|]. cbn [find].
+        rewrite (H x (or_introl eq_refl)). destruct (q x); [reflexivity|]. apply IH. intros; apply H; right; assumption. }
+      apply Hfe. intros t Ht. apply in_seq in Ht. f_equal.
+      assert (Hk0 : (0 < length ps)%nat) by (destruct ps; [congruence | cbn [length]; lia]).
+      assert (Htk : (t mod length ps < length ps)%nat) by (apply Nat.mod_upper_bound; lia).
+      unfold mirror. rewrite nth_indep with (d' := (fun p => len - 1 - p) 0) by (rewrite map_length, rev_length; assumption).
+      rewrite map_nth.
+      assert (Hq : nth (t mod length ps) (rev ps) 0 < len).
+      { apply Hlt. apply (proj2 (in_rev ps _)). apply nth_In. rewrite rev_length. assumption. }
+      destruct (N.eqb_spec (len - 1 - nth (t mod length ps) (rev ps) 0) (N.of_nat t));
+        destruct (N.eqb_spec (nth (t mod length ps) (rev ps) 0) (len - 1 - N.of_nat t)); try reflexivity; lia.
+  - split; [lia|]. split.
+    + intro Hin. apply Hm2. apply (proj2 (mirror_In len ps m Hm1 Hlt)). assumption.
+    + intros i Hi. assert (Hi' : In (len - 1 - i) (mirror len ps)) by (apply Hm3; lia).
+      apply (proj1 (mirror_In len ps (len - 1 - i) ltac:(lia) Hlt)) in Hi'. assert (E : len - 1 - (len - 1 - i) = i) by lia. rewrite E in Hi'. exact Hi'.
+Qed.
+
+(* monotonicity of positions in a strictly increasing list *)
+Lemma sincr_nth_mono : forall l i j x y, sincr l -> nth_N l i = Some x -> nth_N l j = Some y -> i <= j -> x <= y.
+Proof.
+  induction l as [|z l IH]; intros i j x y Hs Hi Hj Hle; [unfold nth_N in Hi; destruct (N.to_nat i); discriminate|].
+  destruct (N.eqb_spec i 0) as [-> | Hi0].
+  - rewrite nth_N_0 in Hi. inversion Hi; subst. destruct (N.eqb_spec j 0) as [-> | Hj0].
+    + rewrite nth_N_0 in Hj. inversion Hj. lia.
+    + rewrite nth_N_pos in Hj by lia. assert (In y l) by (unfold nth_N in Hj; eapply nth_error_In; eauto).
+      pose proof (sincr_head_lt _ _ Hs y H). lia.
+  - rewrite nth_N_pos in Hi, Hj by lia. apply (IH (i - 1) (j - 1) x y); [eapply sincr_tail; eauto | assumption | assumption | lia].
+Qed.
+
+Theorem seg_mask_ok : forall sg ps, seg_wf sg = true -> ids_ok (seg_iter sg) ->
+  sincr ps -> (forall p, In p ps -> p < len_N (seg_iter sg)) ->
+  exists sg', seg_mask sg ps = Ok sg' /\ holds sg' (remove_at 0 ps (seg_iter sg)).
+Proof.
+  intros sg ps Hwf Hok Hs Hlt. unfold seg_mask.
+  destruct ps as [|p0 ps0] eqn:Eps.
+  { exists sg. split; [reflexivity|]. split; [assumption|]. unfold remove_at. cbn [memN existsb negb].
+    rewrite <- (enum_from_snd (seg_iter sg) 0) at 1. f_equal. symmetry.
+    clear. induction (enum_from 0 (seg_iter sg)) as [|x l IH]; [reflexivity | cbn [filter]; f_equal; assumption]. }
+  rewrite <- Eps in *. assert (Hne : ps <> []) by (rewrite Eps; discriminate). clear Eps p0 ps0.
+  set (L := seg_iter sg) in *. rewrite seg_len_iter by assumption. fold L.
+  pose proof (remove_at_len L ps Hs Hlt) as Hrl.
+  destruct (N.eqb_spec (len_N ps) (len_N L)) as [Eall | Enot].
+  { exists (SRange 0 0). split; [reflexivity|]. split; [reflexivity|].
+    assert (len_N (remove_at 0 ps L) = 0) by lia. destruct (remove_at 0 ps L); [reflexivity | rewrite len_N_cons in H; lia]. }
+  unfold csub. replace (len_N ps <=? len_N L) with true by (symmetry; apply N.leb_le; lia). cbn [obind].
+  assert (Hk : len_N ps < len_N L) by lia.
+  destruct (first_unmasked_spec (len_N L) ps Hs Hlt Hne Hk) as [fu [Efu [Hfu1 [Hfu2 Hfu3]]]].
+  destruct (last_unmasked_spec (len_N L) ps Hs Hlt Hne Hk) as [lu [Elu [Hlu1 [Hlu2 Hlu3]]]].
+  rewrite Efu, Elu. rewrite !seg_get_iter by assumption. fold L.
+  destruct (nth_N_some L fu Hfu1) as [mn Hmn]. destruct (nth_N_some L lu Hlu1) as [mx Hmx]. rewrite Hmn, Hmx.
+  rewrite drop_positions_spec by (assumption || (intros; lia)).
+  set (R := remove_at 0 ps L) in *.
+  assert (HokR : ids_ok R) by (eapply ids_ok_subseq; [apply remove_at_subseq | exact Hok]).
+  assert (HmnR : In mn R) by (apply remove_at_In; exists fu; split; assumption).
+  assert (HmxR : In mx R) by (apply remove_at_In; exists lu; split; assumption).
+  destruct HokR as [HndR [HallR HspR]].
+  apply from_stats_ok; cbn [st_count st_sorted st_min st_max].
+  - lia.
+  - intro Hsorted. apply negb_true_iff in Hsorted.
+    assert (HsL : sincr L) by (apply seg_iter_NoDup; assumption).
+    split; [eapply subseq_sincr; [apply remove_at_subseq | assumption]|].
+    intros _. split; [assumption|]. split; [assumption|].
+    intros x Hx. apply remove_at_In in Hx as [j [Hj1 Hj2]].
+    assert (Hjl : j < len_N L).
+    { destruct (N.ltb_spec j (len_N L)); [assumption|]. rewrite nth_N_none in Hj1 by assumption. discriminate. }
+    assert (fu <= j) by (destruct (N.leb_spec fu j); [assumption | exfalso; apply Hj2; apply Hfu3; assumption]).
+    assert (j <= lu) by (destruct (N.leb_spec j lu); [assumption | exfalso; apply Hj2; apply Hlu3; lia]).
+    split; [eapply sincr_nth_mono; eauto | eapply sincr_nth_mono; eauto].
+  - intros _ E. rewrite E in HmnR. destruct HmnR.
+  - assumption.
+  - intros _. cbn [st_count st_sorted st_min st_max]. specialize (HspR mn mx HmnR HmxR).
+    change (2 ^ 62 - 6) with 4611686018427387898 in HspR. unfold two64. lia.
+Qed.
+
+(* ---- RowIdSequence::mask ---- *)
+Lemma enum_from_bounds : forall l b q, In q (enum_from b l) -> b <= fst q < b + len_N l.
+Proof.
+  induction l as [|z l IH]; intros b q Hq; [destruct Hq|]. cbn [enum_from] in Hq. rewrite len_N_cons.
+  destruct Hq as [<- | Hq]; [cbn [fst]; lia | specialize (IH (b + 1) q Hq); lia].
+Qed.
+
+Lemma remove_at_ext : forall l i ps ps', (forall j, i <= j < i + len_N l -> memN j ps = memN j ps') ->
+  remove_at i ps l = remove_at i ps' l.
+Proof.
+  intros l i ps ps' H. unfold remove_at. f_equal. apply filter_ext_in. intros q Hq. f_equal. apply H.
+  apply enum_from_bounds. assumption.
+Qed.
+
+Lemma remove_at_shift : forall l a d ps, remove_at (a + d) (map (fun p => p + d) ps) l = remove_at a ps l.
+Proof.
+  induction l as [|x l IH]; intros a d ps; [reflexivity|]. unfold remove_at in *. cbn [enum_from filter fst].
+  assert (Hm : memN (a + d) (map (fun p => p + d) ps) = memN a ps).
+  { clear. induction ps as [|p ps IHp]; [reflexivity|]. unfold memN in *. cbn [map existsb]. rewrite IHp. f_equal.
+    destruct (N.eqb_spec (a + d) (p + d)), (N.eqb_spec a p); try reflexivity; lia. }
+  rewrite Hm. replace (a + d + 1) with (a + 1 + d) by lia.
+  destruct (negb (memN a ps)); cbn [map snd]; rewrite IH; reflexivity.
+Qed.
+
+Lemma remove_at_app : forall l1 l2 i ps, remove_at i ps (l1 ++ l2) = remove_at i ps l1 ++ remove_at (i + len_N l1) ps l2.
+Proof. intros. unfold remove_at. rewrite enum_from_app, filter_app, map_app. reflexivity. Qed.
+
+Lemma rs_mask_go_ok : forall q ps offset, rseq_wf q = true -> ids_ok (rs_iter q) -> sincr ps ->
+  (forall p, In p ps -> offset <= p < offset + len_N (rs_iter q)) ->
+  exists q', rs_mask_go q ps offset = Ok q' /\ rseq_wf q' = true /\ rs_iter q' = remove_at offset ps (rs_iter q).
+Proof.
+  induction q as [|sg q IH]; intros ps offset Hwf Hok Hs Hin.
+  - exists []. split; [reflexivity|]. split; reflexivity.
+  - apply rseq_wf_cons in Hwf as [H1 H2]. rewrite rs_iter_cons in *.
+    assert (Hok1 : ids_ok (seg_iter sg)) by (eapply ids_ok_subseq; [apply subseq_app_l | exact Hok]).
+    assert (Hok2 : ids_ok (rs_iter q)) by (eapply ids_ok_subseq; [apply subseq_app_r | exact Hok]).
+    cbn [rs_mask_go]. rewrite seg_len_iter by assumption. set (cutoff := offset + len_N (seg_iter sg)).
+    rewrite take_while_lt_sincr, drop_while_lt_sincr by assumption.
+    set (local := filter (fun h => h <? cutoff) ps). set (ps' := filter (fun h => negb (h <? cutoff)) ps).
+    assert (Hloc : forall p, In p local -> offset <= p < cutoff).
+    { intros p Hp. apply filter_In in Hp as [Hp1 Hp2]. apply N.ltb_lt in Hp2. specialize (Hin p Hp1). lia. }
+    replace (existsb (fun p => p <? offset) local) with false.
+    2:{ symmetry. apply not_true_iff_false. intro Hex. apply existsb_exists in Hex as [p [Hp1 Hp2]]. apply N.ltb_lt in Hp2. specialize (Hloc p Hp1). lia. }
+    assert (Hseg : exists sg', (match local with [] => Ok sg | _ => seg_mask sg (map (fun p => p - offset) local) end) = Ok sg'
+                    /\ holds sg' (remove_at offset ps (seg_iter sg))).
+    { assert (Hshift : remove_at offset ps (seg_iter sg) = remove_at 0 (map (fun p => p - offset) local) (seg_iter sg)).
+      { rewrite <- (remove_at_shift (seg_iter sg) 0 offset (map (fun p => p - offset) local)). rewrite map_map.
+        replace (0 + offset) with offset by lia. apply remove_at_ext. intros j Hj.
+        destruct (memN j ps) eqn:E.
+        - symmetry. apply memN_In. apply memN_In in E. apply in_map_iff. exists j. split; [lia|].
+          apply filter_In. split; [assumption | apply N.ltb_lt; unfold cutoff; lia].
+        - symmetry. apply memN_false. apply memN_false in E. intro Hc. apply in_map_iff in Hc as [p [Hp1 Hp2]].
+          specialize (Hloc p Hp2). apply filter_In in Hp2 as [Hp2 _]. assert (Hpj : p = j) by lia. rewrite Hpj in Hp2. exact (E Hp2). }
+      destruct local as [|l0 ls] eqn:El.
+      - exists sg. split; [reflexivity|]. split; [assumption|]. rewrite Hshift. cbn [map]. unfold remove_at. cbn [memN existsb negb].
+        rewrite <- (enum_from_snd (seg_iter sg) 0) at 1. f_equal. symmetry.
+        clear. induction (enum_from 0 (seg_iter sg)) as [|x l IHl]; [reflexivity | cbn [filter]; f_equal; assumption].
+      - rewrite <- El in *. rewrite Hshift. apply seg_mask_ok; try assumption.
+        + assert (Hsl : sincr local) by (apply sincr_filter; assumption).
+          clear -Hsl Hloc. induction local as [|a l IHl]; [constructor|].
+          apply sincr_cons_iff in Hsl as [Hs1 Hs2]. cbn [map]. apply sincr_cons_iff. split.
+          * apply IHl; [intros; apply Hloc; right; assumption | assumption].
+          * intros y Hy. apply in_map_iff in Hy as [z [<- Hz]]. specialize (Hs2 z Hz).
+            pose proof (Hloc a (or_introl eq_refl)). pose proof (Hloc z (or_intror Hz)). lia.
+        + intros p Hp. apply in_map_iff in Hp as [z [<- Hz]]. specialize (Hloc z Hz). unfold cutoff in Hloc. lia. }
+    destruct Hseg as [sg' [Esg [Hwsg Hisg]]]. rewrite Esg. cbn [obind].
+    destruct (IH ps' cutoff H2 Hok2) as [q' [Eq [Hwq Hiq]]].
+    { apply sincr_filter. assumption. }
+    { intros p Hp. apply filter_In in Hp as [Hp1 Hp2]. apply negb_true_iff in Hp2. apply N.ltb_ge in Hp2.
+      specialize (Hin p Hp1). rewrite len_N_app in Hin. unfold cutoff in *. lia. }
+    rewrite Eq. cbn [obind]. exists (sg' :: q'). split; [reflexivity|]. split; [apply rseq_wf_cons; split; assumption|].
+    rewrite rs_iter_cons, Hisg, Hiq, remove_at_app. f_equal. fold cutoff. apply remove_at_ext. intros j Hj.
+    unfold ps'. destruct (memN j ps) eqn:E.
+    + apply memN_In. apply memN_In in E. apply filter_In. split; [assumption|]. apply negb_true_iff. apply N.ltb_ge. lia.
+    + apply memN_false. apply memN_false in E. intro Hc. apply filter_In in Hc as [Hc _]. contradiction.
+Qed.
+
+Lemma filter_nonempty_iter : forall q, rseq_wf q = true ->
+  rseq_wf (filter (fun sg => negb (seg_len sg =? 0)) q) = true
+  /\ rs_iter (filter (fun sg => negb (seg_len sg =? 0)) q) = rs_iter q.
+Proof.
+  induction q as [|sg q IH]; intro Hwf; [split; reflexivity|]. apply rseq_wf_cons in Hwf as [H1 H2].
+  destruct (IH H2) as [Hw Hi]. cbn [filter]. rewrite seg_len_iter by assumption.
+  destruct (N.eqb_spec (len_N (seg_iter sg)) 0) as [E | E]; cbn [negb].
+  - split; [assumption|]. rewrite rs_iter_cons, Hi. destruct (seg_iter sg); [reflexivity | rewrite len_N_cons in E; lia].
+  - split; [apply rseq_wf_cons; split; assumption|]. rewrite !rs_iter_cons, Hi. reflexivity.
+Qed.
+
+Theorem rs_mask_ok : forall q ps, rseq_wf q = true -> ids_ok (rs_iter q) -> sincr ps ->
+  (forall p, In p ps -> p < len_N (rs_iter q)) ->
+  exists q', rs_mask q ps = Ok q' /\ rseq_wf q' = true /\ rs_iter q' = remove_at 0 ps (rs_iter q).
+Proof.
+  intros q ps Hwf Hok Hs Hlt. unfold rs_mask.
+  destruct (rs_mask_go_ok q ps 0 Hwf Hok Hs) as [q' [E [Hw Hi]]]; [intros p Hp; specialize (Hlt p Hp); lia|].
+  rewrite E. cbn [obind]. destruct (filter_nonempty_iter q' Hw) as [Hw' Hi']. eexists. split; [reflexivity|].
+  split; [assumption|]. rewrite Hi'. assumption.
+Qed.
